@@ -5,6 +5,15 @@
 //!   C10 tovec pos=<n> len=<n> want=<n>     -> ok <alloc> <read> | err:<kind>
 //!   C10 bvw max=<n> writes=<n,n,…|->       -> ok <len> | err <len at refusal>
 //!   C10 badd count=<n> k=<n>               -> <count after k add attempts>
+//!   C10 svec elem=<n> n=<n> fill=<0|1>     -> ok <bytes reserved> <len> | err:<kind>   (safe_vec::<T>)
+//!   C10 stores max=<n> s=<p:size|b:size>,… -> ok <reservations> <sizes> | err <reservations>
+//!        a real manifest store with one manifest box per entry (plain, or brotli-compressed and
+//!        padded to decompress to exactly `size`) through Store::from_jumbf_with_context with the
+//!        decompression limit set to `max`; reservations = allocations of exactly `max` bytes
+//!   C10 asserts n=<n>                      -> ok <assertions loaded> | err:<kind>
+//!        a real manifest whose assertion store has n boxes, through Store::from_jumbf_with_context
+//!   C10 bdef n=<n>                         -> <assertions held by Builder::with_definition>
+//!   C10 cadd count=<n> k=<n>               -> ok <count> | err:<kind>   (k Claim::add_assertion on a claim holding count)
 //!   C10 e2e id=<n> … outcome=<class>       -> <class>   (echoed: there is no model of the SDK's
 //!                                             parsers; the line carries the oracle's verdict so
 //!                                             that the evidence counts the explored inputs)
@@ -13,8 +22,11 @@
 //! freshly signed assets, compressed manifests, archives, sidecars) are pushed through
 //! `Reader::with_stream`, `Builder::add_ingredient_from_stream` and `Builder::with_archive`
 //! under the right hint, wrong hints and an unknown hint. Cases run in **forked workers** with
-//! `RLIMIT_AS`, a per-case wall-clock budget enforced by the parent, `catch_unwind` inside, and a
-//! counting global allocator that records the peak live heap of each case.
+//! `RLIMIT_AS`, a per-case CPU budget (`RLIMIT_CPU`) and a wall-clock backstop enforced by the
+//! parent, `catch_unwind` inside, and a counting global allocator that records the peak live heap
+//! of each case. Structured generators (besides the random mutator): COSE_Sign1 / DER (`cosemut`),
+//! brotli streams, ID3v2 (`id3_mutants`), zip directories (`zip_overlap`), byte-level JUMBF
+//! editing with all box sizes rebuilt (`jb`), a lying HTTP transport (`LyingServer`).
 //!
 //! Outcomes per case: `ok` / `err` (fine), `panic:<entry>:<handler>` (caught unwind),
 //! `crash:<entry>:<handler>` (signal: abort, stack overflow, segfault), `hang:…` (budget
@@ -40,6 +52,9 @@ struct Counting;
 static LIVE: AtomicUsize = AtomicUsize::new(0);
 static PEAK: AtomicUsize = AtomicUsize::new(0);
 static MAXREQ: AtomicUsize = AtomicUsize::new(0);
+/// allocations of exactly `WATCH` bytes are counted in `WATCHED` (0 = off)
+static WATCH: AtomicUsize = AtomicUsize::new(0);
+static WATCHED: AtomicUsize = AtomicUsize::new(0);
 
 unsafe impl GlobalAlloc for Counting {
     unsafe fn alloc(&self, l: Layout) -> *mut u8 {
@@ -48,6 +63,24 @@ unsafe impl GlobalAlloc for Counting {
             let live = LIVE.fetch_add(l.size(), Ordering::Relaxed) + l.size();
             PEAK.fetch_max(live, Ordering::Relaxed);
             MAXREQ.fetch_max(l.size(), Ordering::Relaxed);
+            if l.size() == WATCH.load(Ordering::Relaxed) {
+                WATCHED.fetch_add(1, Ordering::Relaxed);
+            }
+        }
+        p
+    }
+
+    // (zeroed requests go to calloc like they do without this wrapper: a huge zeroed request
+    // that is never touched must not be turned into a huge memset by the harness)
+    unsafe fn alloc_zeroed(&self, l: Layout) -> *mut u8 {
+        let p = System.alloc_zeroed(l);
+        if !p.is_null() {
+            let live = LIVE.fetch_add(l.size(), Ordering::Relaxed) + l.size();
+            PEAK.fetch_max(live, Ordering::Relaxed);
+            MAXREQ.fetch_max(l.size(), Ordering::Relaxed);
+            if l.size() == WATCH.load(Ordering::Relaxed) {
+                WATCHED.fetch_add(1, Ordering::Relaxed);
+            }
         }
         p
     }
@@ -67,6 +100,9 @@ unsafe impl GlobalAlloc for Counting {
                 LIVE.fetch_sub(l.size() - new_size, Ordering::Relaxed);
             }
             MAXREQ.fetch_max(new_size, Ordering::Relaxed);
+            if new_size == WATCH.load(Ordering::Relaxed) {
+                WATCHED.fetch_add(1, Ordering::Relaxed);
+            }
         }
         q
     }
@@ -76,11 +112,14 @@ unsafe impl GlobalAlloc for Counting {
 static A: Counting = Counting;
 
 fn main() {
+    // a failed allocation aborts through a non-unwinding panic; symbolising its backtrace costs
+    // seconds of CPU in the worker and would turn an `oom` into a `hang` under load
+    std::env::set_var("RUST_BACKTRACE", "0");
     let args: Vec<String> = std::env::args().collect();
     if args.len() >= 4 && args[1] == "time" {
         // c10 time <hint> <file>: run the three entry points once on a saved input (in process)
         let data = std::fs::read(&args[3]).expect("read input");
-        let hint: &'static str = HINTS.iter().find(|h| **h == args[2]).copied().unwrap_or("xyz/unknown");
+        let hint: &'static str = HINTS.iter().chain(REMOTE_HINTS.iter()).find(|h| **h == args[2]).copied().unwrap_or("xyz/unknown");
         let c = Case { seed: usize::MAX, what: "file".into(), hint, data, archive: true };
         let t0 = Instant::now();
         let r = exec_case(&c);
@@ -216,11 +255,6 @@ fn guard_cases(run: &mut Run, rng: &mut Rng) {
     // the builder's assertion limit (one long run; MAX_ASSERTIONS adds take a moment)
     let max = h10::MAX_ASSERTIONS;
     run.obligations.insert("max_assertions_is_100000".into(), max == 100_000);
-    let store_rs = std::fs::read_to_string("/repo/sdk/src/store.rs").unwrap_or_default();
-    run.obligations.insert(
-        "reader_checks_assertion_count_before_loop".into(),
-        store_rs.find("if num_assertions > MAX_ASSERTIONS").map(|a| store_rs[a..].find("for idx in 0..num_assertions").is_some()).unwrap_or(false),
-    );
     let start = if thorough { 0 } else { max - 40 };
     let attempts = if thorough { max + 25 } else { 65 };
     let res = guarded(std::panic::AssertUnwindSafe(|| -> c2pa::Result<usize> {
@@ -247,6 +281,1335 @@ fn guard_cases(run: &mut Run, rng: &mut Rng) {
         Ok(Ok(n)) if n <= max => run.nontrivial("badd".into()),
         Ok(Ok(n)) => run.fail(idx, "assertion-limit-exceeded", format!("builder holds {n} assertions (limit {max})")),
         other => run.fail(idx, "panic:add_assertion", format!("{:?}", other.map(|r| r.map_err(|e| err_class(&e))))),
+    }
+}
+
+// ---------------------------------------------------------------------------------------------
+// byte-level JUMBF editing (independent of the SDK's box code)
+
+mod jb {
+    pub fn be32(d: &[u8], i: usize) -> usize {
+        u32::from_be_bytes([d[i], d[i + 1], d[i + 2], d[i + 3]]) as usize
+    }
+
+    pub fn boxed(ty: &[u8; 4], parts: &[&[u8]]) -> Vec<u8> {
+        let n: usize = 8 + parts.iter().map(|p| p.len()).sum::<usize>();
+        let mut v = Vec::with_capacity(n);
+        v.extend_from_slice(&(n as u32).to_be_bytes());
+        v.extend_from_slice(ty);
+        for p in parts {
+            v.extend_from_slice(p);
+        }
+        v
+    }
+
+    /// the boxes that tile `d` exactly: (start, size)
+    pub fn kids(d: &[u8]) -> Option<Vec<(usize, usize)>> {
+        let mut v = vec![];
+        let mut i = 0;
+        while i < d.len() {
+            if i + 8 > d.len() {
+                return None;
+            }
+            let sz = be32(d, i);
+            if sz < 8 || i + sz > d.len() {
+                return None;
+            }
+            v.push((i, sz));
+            i += sz;
+        }
+        Some(v)
+    }
+
+    /// a `jumb` box -> (its `jumd` box, the boxes that follow)
+    pub fn split(jumb: &[u8]) -> Option<(Vec<u8>, Vec<Vec<u8>>)> {
+        if jumb.len() < 16 || &jumb[4..8] != b"jumb" || be32(jumb, 0) != jumb.len() {
+            return None;
+        }
+        let body = &jumb[8..];
+        let k = kids(body)?;
+        let all: Vec<Vec<u8>> = k.iter().map(|(s, l)| body[*s..*s + *l].to_vec()).collect();
+        if all.is_empty() || &all[0][4..8] != b"jumd" || all[0].len() < 25 {
+            return None;
+        }
+        Some((all[0].clone(), all[1..].to_vec()))
+    }
+
+    pub fn join(jumd: &[u8], kids: &[Vec<u8>]) -> Vec<u8> {
+        let mut parts: Vec<&[u8]> = vec![jumd];
+        parts.extend(kids.iter().map(|k| k.as_slice()));
+        boxed(b"jumb", &parts)
+    }
+
+    /// first four bytes of a description box's type UUID: "c2pa", "c2ma", "c2as", "c2cl", …
+    pub fn kind(jumd: &[u8]) -> [u8; 4] {
+        [jumd[8], jumd[9], jumd[10], jumd[11]]
+    }
+
+    /// (offset of the label inside the jumd box, length) when the label toggle is set
+    pub fn label_span(jumd: &[u8]) -> Option<(usize, usize)> {
+        if jumd[24] & 2 == 0 {
+            return None;
+        }
+        let n = jumd[25..].iter().position(|b| *b == 0)?;
+        Some((25, n))
+    }
+
+    pub fn jumd(kind: &[u8; 4], label: &str) -> Vec<u8> {
+        let mut p = kind.to_vec();
+        p.extend_from_slice(&[0x00, 0x11, 0x00, 0x10, 0x80, 0x00, 0x00, 0xaa, 0x00, 0x38, 0x9b, 0x71]);
+        p.push(3);
+        p.extend_from_slice(label.as_bytes());
+        p.push(0);
+        boxed(b"jumd", &[&p])
+    }
+}
+
+/// A manifest store signed now: the bytes `Builder::save_to_stream` returns.
+fn fresh_store() -> c2pa::Result<Vec<u8>> {
+    fresh_store_with(false)
+}
+
+fn fresh_store_with(compress: bool) -> c2pa::Result<Vec<u8>> {
+    let signer = c2pa::EphemeralSigner::new("verif.test")?;
+    let st = if compress { r#"{"core":{"prefer_compress_manifests":true},"verify":{"remote_manifest_fetch":false,"ocsp_fetch":false}}"# } else { offline() };
+    let ctx = Context::new().with_settings(st)?.with_signer(signer);
+    let mut b = Builder::from_context(ctx).with_definition(definition("c10 store", "image/png").as_str())?;
+    let src = std::fs::read(fixtures().join("libpng-test.png"))?;
+    b.save_to_stream("image/png", &mut Cursor::new(src), &mut Cursor::new(Vec::new()))
+}
+
+/// index of the assertion store among the boxes of a manifest
+fn assertion_store_at(kids: &[Vec<u8>]) -> Option<usize> {
+    kids.iter().position(|k| jb::split(k).map(|(d, _)| &jb::kind(&d) == b"c2as").unwrap_or(false))
+}
+
+/// The manifest with an assertion store of exactly `n` boxes (its own, then copies of its smallest).
+fn with_assertion_count(manifest: &[u8], n: usize) -> Option<Vec<u8>> {
+    let (jumd, mut kids) = jb::split(manifest)?;
+    let at = assertion_store_at(&kids)?;
+    let (ajumd, mut asserts) = jb::split(&kids[at])?;
+    let proto = asserts.iter().min_by_key(|a| a.len())?.clone();
+    asserts.truncate(n);
+    while asserts.len() < n {
+        asserts.push(proto.clone());
+    }
+    kids[at] = jb::join(&ajumd, &asserts);
+    Some(jb::join(&jumd, &kids))
+}
+
+/// The manifest grown to exactly `total` bytes by a padding (`free`) box at the end of its first
+/// assertion box (the loader reads data box 0 of an assertion and ignores the rest).
+fn padded_to(manifest: &[u8], total: usize) -> Option<Vec<u8>> {
+    if total == manifest.len() {
+        return Some(manifest.to_vec());
+    }
+    if total < manifest.len() + 8 {
+        return None;
+    }
+    let (jumd, mut kids) = jb::split(manifest)?;
+    let at = assertion_store_at(&kids)?;
+    let (ajumd, mut asserts) = jb::split(&kids[at])?;
+    let pad = jb::boxed(b"free", &[&vec![0u8; total - manifest.len() - 8]]);
+    let first = asserts.first()?.clone();
+    asserts[0] = jb::boxed(b"jumb", &[&first[8..], &pad]);
+    kids[at] = jb::join(&ajumd, &asserts);
+    let out = jb::join(&jumd, &kids);
+    (out.len() == total).then_some(out)
+}
+
+/// The manifest with the CBOR payload of its first assertion replaced by a byte string of
+/// `n` zeros (valid CBOR, kept by the loader: the claim holds the assertion's data).
+fn with_big_assertion(manifest: &[u8], n: usize) -> Option<Vec<u8>> {
+    let (jumd, mut kids) = jb::split(manifest)?;
+    let at = assertion_store_at(&kids)?;
+    let (ajumd, mut asserts) = jb::split(&kids[at])?;
+    let (a0jumd, _) = jb::split(asserts.first()?)?;
+    let mut payload = vec![0x5au8];
+    payload.extend((n as u32).to_be_bytes());
+    payload.resize(5 + n, 0);
+    asserts[0] = jb::join(&a0jumd, &[jb::boxed(b"cbor", &[&payload])]);
+    kids[at] = jb::join(&ajumd, &asserts);
+    Some(jb::join(&jumd, &kids))
+}
+
+fn crc32(d: &[u8]) -> u32 {
+    let mut c = 0xffff_ffffu32;
+    for b in d {
+        c ^= *b as u32;
+        for _ in 0..8 {
+            c = if c & 1 != 0 { (c >> 1) ^ 0xedb8_8320 } else { c >> 1 };
+        }
+    }
+    !c
+}
+
+/// A zip archive (stored entries only) with `manifest.json` and `n` directory entries
+/// `resources/r<i>` that all name the **same** stored bytes (`size` bytes): what the archive
+/// expands to is `n * size` although the file holds `size` once.
+fn zip_overlap(manifest_json: &[u8], n: usize, size: usize) -> Vec<u8> {
+    fn local(name: &[u8], data: &[u8]) -> Vec<u8> {
+        let mut v = vec![];
+        v.extend(0x0403_4b50u32.to_le_bytes());
+        v.extend(20u16.to_le_bytes());
+        v.extend(0u16.to_le_bytes());
+        v.extend(0u16.to_le_bytes());
+        v.extend(0u32.to_le_bytes()); // time, date
+        v.extend(crc32(data).to_le_bytes());
+        v.extend((data.len() as u32).to_le_bytes());
+        v.extend((data.len() as u32).to_le_bytes());
+        v.extend((name.len() as u16).to_le_bytes());
+        v.extend(0u16.to_le_bytes());
+        v.extend(name);
+        v.extend(data);
+        v
+    }
+    fn central(name: &[u8], crc: u32, len: usize, off: usize) -> Vec<u8> {
+        let mut v = vec![];
+        v.extend(0x0201_4b50u32.to_le_bytes());
+        v.extend(20u16.to_le_bytes());
+        v.extend(20u16.to_le_bytes());
+        v.extend(0u16.to_le_bytes());
+        v.extend(0u16.to_le_bytes());
+        v.extend(0u32.to_le_bytes());
+        v.extend(crc.to_le_bytes());
+        v.extend((len as u32).to_le_bytes());
+        v.extend((len as u32).to_le_bytes());
+        v.extend((name.len() as u16).to_le_bytes());
+        v.extend([0u8; 8]); // extra len, comment len, disk, internal attrs
+        v.extend(0u32.to_le_bytes());
+        v.extend((off as u32).to_le_bytes());
+        v.extend(name);
+        v
+    }
+    let blob = vec![0x41u8; size];
+    let mut out = local(b"manifest.json", manifest_json);
+    let blob_at = out.len();
+    out.extend(local(b"resources/r0", &blob));
+    let cd_at = out.len();
+    let mut cd = central(b"manifest.json", crc32(manifest_json), manifest_json.len(), 0);
+    let crc = crc32(&blob);
+    for i in 0..n {
+        cd.extend(central(format!("resources/r{i}").as_bytes(), crc, size, blob_at));
+    }
+    out.extend(&cd);
+    out.extend(0x0605_4b50u32.to_le_bytes());
+    out.extend([0u8; 4]);
+    out.extend(((n + 1) as u16).to_le_bytes());
+    out.extend(((n + 1) as u16).to_le_bytes());
+    out.extend((cd.len() as u32).to_le_bytes());
+    out.extend((cd_at as u32).to_le_bytes());
+    out.extend(0u16.to_le_bytes());
+    out
+}
+
+/// the raw store with the brotli stream of its (last) compressed manifest replaced
+fn with_brob_payload(store: &[u8], payload: &[u8]) -> Option<Vec<u8>> {
+    let (top, mut manifests) = jb::split(store)?;
+    let mi = manifests.iter().rposition(|m| jb::split(m).map(|(d, k)| &jb::kind(&d) == b"c2cm" && k.len() == 1 && &k[0][4..8] == b"brob").unwrap_or(false))?;
+    let (mj, _) = jb::split(&manifests[mi])?;
+    manifests[mi] = jb::join(&mj, &[jb::boxed(b"brob", &[payload])]);
+    Some(jb::join(&top, &manifests))
+}
+
+fn brob_payload(store: &[u8]) -> Option<Vec<u8>> {
+    let (_, manifests) = jb::split(store)?;
+    manifests.iter().rev().find_map(|m| {
+        let (d, k) = jb::split(m)?;
+        (&jb::kind(&d) == b"c2cm" && k.len() == 1 && &k[0][4..8] == b"brob").then(|| k[0][8..].to_vec())
+    })
+}
+
+/// same manifest under another label (same length: the last two characters are replaced)
+fn relabelled(manifest: &[u8], i: usize) -> Option<Vec<u8>> {
+    let (mut jumd, kids) = jb::split(manifest)?;
+    let (off, n) = jb::label_span(&jumd)?;
+    if n < 2 {
+        return None;
+    }
+    jumd[off + n - 2] = b'q';
+    jumd[off + n - 1] = b"0123456789abcdefghijklmnopqrstuvwxyz"[i % 36];
+    Some(jb::join(&jumd, &kids))
+}
+
+/// the compressed form the SDK writes: a `c2cm` super box with the manifest's label and one `brob` box
+fn compressed(manifest: &[u8]) -> Option<Vec<u8>> {
+    let (jumd, _) = jb::split(manifest)?;
+    let (off, n) = jb::label_span(&jumd)?;
+    let label = String::from_utf8_lossy(&jumd[off..off + n]).to_string();
+    let mut out = Vec::new();
+    let params = brotli::enc::BrotliEncoderParams { quality: 5, ..Default::default() };
+    brotli::BrotliCompress(&mut Cursor::new(manifest), &mut out, &params).ok()?;
+    Some(jb::join(&jb::jumd(b"c2cm", &label), &[jb::boxed(b"brob", &[&out])]))
+}
+
+// ---------------------------------------------------------------------------------------------
+// structure-aware COSE_Sign1 / DER mutation of the signature box
+
+mod cosemut {
+    use coset::cbor::value::Value as Cv;
+    use vh::common::Rng;
+
+    pub fn dec(b: &[u8]) -> Option<Cv> {
+        coset::cbor::de::from_reader::<Cv, _>(b).ok()
+    }
+
+    pub fn enc(v: &Cv) -> Vec<u8> {
+        let mut out = Vec::new();
+        let _ = coset::cbor::ser::into_writer(v, &mut out);
+        out
+    }
+
+    fn int(i: i64) -> Cv {
+        Cv::Integer(i.into())
+    }
+    fn text(t: &str) -> Cv {
+        Cv::Text(t.to_string())
+    }
+    fn nest(v: Cv, depth: usize) -> Cv {
+        (0..depth).fold(v, |acc, _| Cv::Array(vec![acc]))
+    }
+
+    // ---- DER ----
+    #[derive(Clone, Debug)]
+    pub struct Tlv {
+        pub tag: Vec<u8>,
+        pub kids: Option<Vec<Tlv>>,
+        pub prim: Vec<u8>,
+        /// length octets written instead of the correct ones
+        pub len_override: Option<Vec<u8>>,
+    }
+
+    fn der_one(b: &[u8], depth: usize) -> Option<(Tlv, usize)> {
+        if b.len() < 2 || depth > 64 {
+            return None;
+        }
+        let mut i = 1;
+        if b[0] & 0x1f == 0x1f {
+            while i < b.len() && b[i] & 0x80 != 0 {
+                i += 1;
+            }
+            i += 1;
+        }
+        if i >= b.len() {
+            return None;
+        }
+        let tag = b[..i].to_vec();
+        let l0 = b[i];
+        i += 1;
+        let len = if l0 < 0x80 {
+            l0 as usize
+        } else {
+            let n = (l0 & 0x7f) as usize;
+            if n == 0 || n > 4 || i + n > b.len() {
+                return None;
+            }
+            let mut l = 0usize;
+            for k in 0..n {
+                l = (l << 8) | b[i + k] as usize;
+            }
+            i += n;
+            l
+        };
+        if i + len > b.len() {
+            return None;
+        }
+        let content = &b[i..i + len];
+        let kids = if tag[0] & 0x20 != 0 {
+            let mut v = vec![];
+            let mut j = 0;
+            let mut ok = true;
+            while j < content.len() {
+                match der_one(&content[j..], depth + 1) {
+                    Some((t, n)) => {
+                        v.push(t);
+                        j += n;
+                    }
+                    None => {
+                        ok = false;
+                        break;
+                    }
+                }
+            }
+            ok.then_some(v)
+        } else {
+            None
+        };
+        Some((Tlv { tag, prim: if kids.is_some() { vec![] } else { content.to_vec() }, kids, len_override: None }, i + len))
+    }
+
+    pub fn der_parse(b: &[u8]) -> Option<Tlv> {
+        der_one(b, 0).map(|(t, _)| t)
+    }
+
+    fn der_len(n: usize) -> Vec<u8> {
+        if n < 0x80 {
+            vec![n as u8]
+        } else {
+            let bytes: Vec<u8> = n.to_be_bytes().iter().copied().skip_while(|b| *b == 0).collect();
+            let mut v = vec![0x80 | bytes.len() as u8];
+            v.extend(bytes);
+            v
+        }
+    }
+
+    /// number of length octets at the start of `b`
+    fn der_len_len(b: &[u8]) -> usize {
+        match b.first() {
+            Some(l) if *l >= 0x80 => 1 + (*l & 0x7f) as usize,
+            _ => 1,
+        }
+    }
+
+    pub fn der_enc(t: &Tlv) -> Vec<u8> {
+        let content: Vec<u8> = match &t.kids {
+            Some(k) => k.iter().flat_map(der_enc).collect(),
+            None => t.prim.clone(),
+        };
+        let mut out = t.tag.clone();
+        out.extend(t.len_override.clone().unwrap_or_else(|| der_len(content.len())));
+        out.extend(content);
+        out
+    }
+
+    fn count(t: &Tlv) -> usize {
+        1 + t.kids.as_ref().map(|k| k.iter().map(count).sum()).unwrap_or(0)
+    }
+
+    fn nth<'a>(t: &'a mut Tlv, n: &mut usize) -> Option<&'a mut Tlv> {
+        if *n == 0 {
+            return Some(t);
+        }
+        *n -= 1;
+        if let Some(k) = t.kids.as_mut() {
+            for c in k.iter_mut() {
+                if let Some(x) = nth(c, n) {
+                    return Some(x);
+                }
+            }
+        }
+        None
+    }
+
+    /// one structure-aware mutation of a DER value; the encoding of the ancestors stays consistent
+    pub fn der_mutant(der: &[u8], rng: &mut Rng) -> Option<(Vec<u8>, String)> {
+        let mut root = der_parse(der)?;
+        let total = count(&root);
+        let mut idx = rng.below(total as u64) as usize;
+        let at = idx;
+        let node = nth(&mut root, &mut idx)?;
+        let content_len = match &node.kids {
+            Some(k) => k.iter().map(|c| der_enc(c).len()).sum(),
+            None => node.prim.len(),
+        };
+        let kind = rng.below(18);
+        let what = match kind {
+            0 => {
+                node.kids = node.kids.as_ref().map(|_| vec![]);
+                node.prim.clear();
+                "empty"
+            }
+            1 => {
+                node.len_override = Some(vec![0x80]);
+                "indefinite-length"
+            }
+            2 => {
+                node.len_override = Some(vec![0x84, 0xff, 0xff, 0xff, 0xff]);
+                "length-4g"
+            }
+            3 => {
+                node.len_override = Some(vec![0x88, 0x7f, 0xff, 0xff, 0xff, 0xff, 0xff, 0xff, 0xff]);
+                "length-2^63"
+            }
+            4 => {
+                node.len_override = Some(vec![0x89, 1, 0, 0, 0, 0, 0, 0, 0, 0]);
+                "length-9-octets"
+            }
+            5 => {
+                node.len_override = Some(der_len(content_len + 1 + rng.below(300) as usize));
+                "length-longer"
+            }
+            6 => {
+                node.len_override = Some(der_len(content_len.saturating_sub(1 + rng.below(4) as usize)));
+                "length-shorter"
+            }
+            7 => {
+                let mut l = vec![0x84];
+                l.extend((content_len as u32).to_be_bytes());
+                node.len_override = Some(l);
+                "length-non-minimal"
+            }
+            8 => {
+                node.tag = vec![*rng.pick(&[0x02u8, 0x03, 0x04, 0x05, 0x06, 0x0c, 0x13, 0x17, 0x18, 0x30, 0x31, 0xa0, 0xa3, 0x80, 0x01, 0x0a, 0x00])];
+                if node.tag[0] & 0x20 == 0 && node.kids.is_some() {
+                    node.prim = node.kids.take().map(|k| k.iter().flat_map(der_enc).collect()).unwrap_or_default();
+                }
+                "retag"
+            }
+            9 => {
+                node.tag = vec![node.tag[0] | 0x1f, 0xff, 0xff, 0xff, 0xff, 0x7f];
+                "high-tag-number"
+            }
+            10 if node.kids.is_none() => {
+                if !node.prim.is_empty() {
+                    node.prim[0] = *rng.pick(&[0x80u8, 0xff, 0x00, 0x08, 0x7f]);
+                }
+                "first-content-byte"
+            }
+            11 if node.kids.is_none() => {
+                let n = node.prim.len();
+                node.prim.truncate(rng.below(n as u64 + 1) as usize);
+                "truncate-content"
+            }
+            12 if node.kids.is_none() => {
+                let k = *rng.pick(&[1usize, 16, 300, 70_000]);
+                node.prim.extend(std::iter::repeat(0xffu8).take(k));
+                "extend-content"
+            }
+            13 if node.kids.is_some() => {
+                if let Some(k) = node.kids.as_mut() {
+                    if !k.is_empty() {
+                        let i = rng.below(k.len() as u64) as usize;
+                        k.remove(i);
+                    }
+                }
+                "drop-child"
+            }
+            14 if node.kids.is_some() => {
+                if let Some(k) = node.kids.as_mut() {
+                    if !k.is_empty() {
+                        let i = rng.below(k.len() as u64) as usize;
+                        let c = k[i].clone();
+                        let times = *rng.pick(&[1usize, 2, 200]);
+                        for _ in 0..times {
+                            k.insert(i, c.clone());
+                        }
+                    }
+                }
+                "duplicate-child"
+            }
+            15 => {
+                // nest inside `depth` SEQUENCEs (encoded iteratively: the harness itself must not recurse)
+                let depth = *rng.pick(&[3usize, 70, 600, 20_000]);
+                let mut cur = der_enc(node);
+                for _ in 0..depth {
+                    let mut w = vec![0x30];
+                    w.extend(der_len(cur.len()));
+                    w.extend(cur);
+                    cur = w;
+                }
+                // strip the outermost header again: it is re-emitted by the encoder
+                let hdr = 1 + der_len(cur.len() - 1 - der_len_len(&cur[1..])).len();
+                *node = Tlv { tag: vec![0x30], kids: None, prim: cur[hdr..].to_vec(), len_override: None };
+                "deep-nest"
+            }
+            16 if node.kids.is_some() => {
+                if let Some(k) = node.kids.as_mut() {
+                    k.reverse();
+                }
+                "reverse-children"
+            }
+            _ => {
+                // swap this node for random bytes of the same size
+                let n = content_len.max(1);
+                node.kids = None;
+                node.prim = rng.bytes(n);
+                "random-content"
+            }
+        };
+        Some((der_enc(&root), format!("der-{what}#{at}")))
+    }
+
+    // ---- COSE ----
+    pub struct Parts {
+        pub tag: Option<u64>,
+        pub prot: Vec<(Cv, Cv)>,
+        pub unprot: Vec<(Cv, Cv)>,
+        pub payload: Cv,
+        pub sig: Cv,
+    }
+
+    pub fn parts(cose: &[u8]) -> Option<Parts> {
+        let v = dec(cose)?;
+        let (tag, arr) = match v {
+            Cv::Tag(t, inner) => (Some(t), *inner),
+            other => (None, other),
+        };
+        let Cv::Array(a) = arr else { return None };
+        if a.len() != 4 {
+            return None;
+        }
+        let prot = match &a[0] {
+            Cv::Bytes(b) if b.is_empty() => vec![],
+            Cv::Bytes(b) => match dec(b)? {
+                Cv::Map(m) => m,
+                _ => return None,
+            },
+            _ => return None,
+        };
+        let Cv::Map(unprot) = a[1].clone() else { return None };
+        Some(Parts { tag, prot, unprot, payload: a[2].clone(), sig: a[3].clone() })
+    }
+
+    pub fn build(p: &Parts) -> Cv {
+        let arr = Cv::Array(vec![Cv::Bytes(if p.prot.is_empty() { vec![] } else { enc(&Cv::Map(p.prot.clone())) }), Cv::Map(p.unprot.clone()), p.payload.clone(), p.sig.clone()]);
+        match p.tag {
+            Some(t) => Cv::Tag(t, Box::new(arr)),
+            None => arr,
+        }
+    }
+
+    fn is_key(k: &Cv, n: i64, t: &str) -> bool {
+        matches!(k, Cv::Integer(i) if i128::from(*i) == n as i128) || matches!(k, Cv::Text(s) if s == t)
+    }
+
+    fn get<'a>(m: &'a [(Cv, Cv)], n: i64, t: &str) -> Option<&'a Cv> {
+        m.iter().find(|(k, _)| is_key(k, n, t)).map(|(_, v)| v)
+    }
+
+    /// set / replace / remove (`None`) an entry; a new entry uses the integer key when `n != 0`
+    fn set(m: &mut Vec<(Cv, Cv)>, n: i64, t: &str, v: Option<Cv>) {
+        let pos = m.iter().position(|(k, _)| is_key(k, n, t));
+        match (pos, v) {
+            (Some(i), Some(v)) => m[i].1 = v,
+            (Some(i), None) => {
+                m.remove(i);
+            }
+            (None, Some(v)) => m.push((if n != 0 { int(n) } else { text(t) }, v)),
+            (None, None) => {}
+        }
+    }
+
+    pub fn certs_of(p: &Parts) -> (bool, Vec<Vec<u8>>) {
+        let (in_prot, v) = match get(&p.prot, 33, "x5chain") {
+            Some(v) => (true, Some(v)),
+            None => (false, get(&p.unprot, 33, "x5chain")),
+        };
+        let certs = match v {
+            Some(Cv::Bytes(b)) => vec![b.clone()],
+            Some(Cv::Array(a)) => a.iter().filter_map(|c| if let Cv::Bytes(b) = c { Some(b.clone()) } else { None }).collect(),
+            _ => vec![],
+        };
+        (in_prot, certs)
+    }
+
+    fn bytes_list(v: &[Vec<u8>]) -> Cv {
+        Cv::Array(v.iter().cloned().map(Cv::Bytes).collect())
+    }
+
+    /// DER blobs of the time-stamp tokens / OCSP responses in the unprotected header: (header key, inner key, index, bytes)
+    fn der_blobs(p: &Parts) -> Vec<(String, String, usize, Vec<u8>)> {
+        let mut out = vec![];
+        for (hk, ik, vk) in [("sigTst", "tstTokens", Some("val")), ("sigTst2", "tstTokens", Some("val")), ("rVals", "ocspVals", None)] {
+            if let Some(Cv::Map(m)) = get(&p.unprot, 0, hk) {
+                if let Some(Cv::Array(a)) = get(m, 0, ik) {
+                    for (i, e) in a.iter().enumerate() {
+                        match (vk, e) {
+                            (Some(vk), Cv::Map(em)) => {
+                                if let Some(Cv::Bytes(b)) = get(em, 0, vk) {
+                                    out.push((hk.to_string(), ik.to_string(), i, b.clone()));
+                                }
+                            }
+                            (None, Cv::Bytes(b)) => out.push((hk.to_string(), ik.to_string(), i, b.clone())),
+                            _ => {}
+                        }
+                    }
+                }
+            }
+        }
+        out
+    }
+
+    fn put_der_blob(p: &mut Parts, hk: &str, ik: &str, i: usize, b: Vec<u8>) {
+        if let Some((_, Cv::Map(m))) = p.unprot.iter_mut().find(|(k, _)| is_key(k, 0, hk)) {
+            if let Some((_, Cv::Array(a))) = m.iter_mut().find(|(k, _)| is_key(k, 0, ik)) {
+                match a.get_mut(i) {
+                    Some(Cv::Map(em)) => set(em, 0, "val", Some(Cv::Bytes(b))),
+                    Some(e @ Cv::Bytes(_)) => *e = Cv::Bytes(b),
+                    _ => {}
+                }
+            }
+        }
+    }
+
+    /// The deterministic list of header-shape mutants of one COSE_Sign1 plus `extra` random
+    /// DER mutants of its certificates / tokens. Each entry: (description, mutant structure).
+    pub fn mutants(cose: &[u8], rng: &mut Rng, extra: usize) -> Vec<(String, Cv)> {
+        let Some(base) = parts(cose) else { return vec![] };
+        let (in_prot, certs) = certs_of(&base);
+        let c0 = certs.first().cloned().unwrap_or_else(|| vec![0x30, 0x00]);
+        let mut out: Vec<(String, Cv)> = vec![];
+        let fresh = || parts(cose).expect("parsed before");
+
+        // x5chain shapes
+        let chain_vals: Vec<(&str, Cv)> = vec![
+            ("empty-array", Cv::Array(vec![])),
+            ("empty-bstr", Cv::Bytes(vec![])),
+            ("int", int(0)),
+            ("text", text("x5chain")),
+            ("null", Cv::Null),
+            ("bool", Cv::Bool(true)),
+            ("float", Cv::Float(1.5)),
+            ("empty-map", Cv::Map(vec![])),
+            ("array-of-empty-bstr", Cv::Array(vec![Cv::Bytes(vec![])])),
+            ("nested-array", Cv::Array(vec![bytes_list(&certs)])),
+            ("int-then-cert", Cv::Array(vec![int(1), Cv::Bytes(c0.clone())])),
+            ("cert-then-text", Cv::Array(vec![Cv::Bytes(c0.clone()), text("x")])),
+            ("array-of-int", Cv::Array(vec![int(1)])),
+            ("array-of-null", Cv::Array(vec![Cv::Null, Cv::Null])),
+            ("10000-empty-bstr", Cv::Array(vec![Cv::Bytes(vec![]); 10_000])),
+            ("leaf-x60", Cv::Array(vec![Cv::Bytes(c0.clone()); 60])),
+            ("single-bstr", Cv::Bytes(c0.clone())),
+            ("single-in-array", Cv::Array(vec![Cv::Bytes(c0.clone())])),
+            ("leaf-truncated", Cv::Array(vec![Cv::Bytes(c0[..c0.len() / 2].to_vec())])),
+            ("leaf-one-byte", Cv::Array(vec![Cv::Bytes(vec![0x30])])),
+            ("tagged-bstr", Cv::Tag(24, Box::new(Cv::Bytes(c0.clone())))),
+            ("deep-nest-300", nest(Cv::Bytes(c0.clone()), 300)),
+            ("reversed", bytes_list(&certs.iter().rev().cloned().collect::<Vec<_>>())),
+            ("no-leaf", bytes_list(&certs.iter().skip(1).cloned().collect::<Vec<_>>())),
+        ];
+        for (name, v) in chain_vals {
+            for place in ["same", "other", "both"] {
+                let mut p = fresh();
+                let (a, b) = if in_prot { (&mut p.prot, &mut p.unprot) } else { (&mut p.unprot, &mut p.prot) };
+                match place {
+                    "same" => set(a, 33, "x5chain", Some(v.clone())),
+                    "other" => {
+                        set(a, 33, "x5chain", None);
+                        set(b, 33, "x5chain", Some(v.clone()));
+                    }
+                    _ => set(b, 33, "x5chain", Some(v.clone())),
+                }
+                out.push((format!("x5chain={name}@{place}"), build(&p)));
+            }
+        }
+        {
+            let mut p = fresh();
+            set(&mut p.prot, 33, "x5chain", None);
+            set(&mut p.unprot, 33, "x5chain", None);
+            out.push(("x5chain-removed".into(), build(&p)));
+            // the legacy text key
+            let mut p = fresh();
+            set(&mut p.prot, 33, "x5chain", None);
+            p.unprot.push((text("x5chain"), Cv::Array(vec![])));
+            out.push(("x5chain-text-key=empty-array".into(), build(&p)));
+        }
+        // alg
+        for (name, v) in [
+            ("removed", None),
+            ("text", Some(text("ES256"))),
+            ("i64max", Some(int(i64::MAX))),
+            ("i64min", Some(int(i64::MIN))),
+            ("zero", Some(int(0))),
+            ("array", Some(Cv::Array(vec![]))),
+            ("bstr", Some(Cv::Bytes(vec![1]))),
+            ("null", Some(Cv::Null)),
+            ("es256", Some(int(-7))),
+            ("eddsa", Some(int(-8))),
+            ("es384", Some(int(-35))),
+            ("es512", Some(int(-36))),
+            ("ps256", Some(int(-37))),
+            ("ps512", Some(int(-39))),
+            ("rs256", Some(int(-257))),
+        ] {
+            let mut p = fresh();
+            set(&mut p.prot, 1, "alg", v);
+            out.push((format!("alg={name}"), build(&p)));
+        }
+        // the protected header container
+        let prot_map = Cv::Map(base.prot.clone());
+        let mut garbage = enc(&prot_map);
+        garbage.extend_from_slice(&[0xff, 0x00, 0x9f]);
+        let mut dup = base.prot.clone();
+        dup.extend(base.prot.clone());
+        let many: Vec<(Cv, Cv)> = (0..3000).map(|i| (int(1000 + i), int(i))).collect();
+        for (name, v) in [
+            ("empty-bstr", Cv::Bytes(vec![])),
+            ("bstr-of-array", Cv::Bytes(enc(&Cv::Array(vec![])))),
+            ("bstr-of-int", Cv::Bytes(enc(&int(1)))),
+            ("bstr-with-trailing-garbage", Cv::Bytes(garbage)),
+            ("map-not-bstr", prot_map.clone()),
+            ("duplicate-keys", Cv::Bytes(enc(&Cv::Map(dup)))),
+            ("bstr-of-break", Cv::Bytes(vec![0xff])),
+            ("bstr-of-truncated-map", Cv::Bytes(vec![0xbf, 0x01])),
+            ("3000-entries", Cv::Bytes(enc(&Cv::Map(many)))),
+            ("null", Cv::Null),
+            ("bstr-of-nested", Cv::Bytes(enc(&nest(int(1), 200)))),
+        ] {
+            let mut a = match build(&fresh()) {
+                Cv::Tag(_, inner) => *inner,
+                other => other,
+            };
+            if let Cv::Array(items) = &mut a {
+                items[0] = v;
+            }
+            out.push((format!("protected={name}"), Cv::Tag(18, Box::new(a))));
+        }
+        // unprotected header entries
+        let tok = |v: Cv| Cv::Map(vec![(text("tstTokens"), v)]);
+        let ocsp = |v: Cv| Cv::Map(vec![(text("ocspVals"), v)]);
+        let noise = rng.bytes(120);
+        let shapes: Vec<(&str, Cv)> = vec![
+            ("int", int(5)),
+            ("empty-array", Cv::Array(vec![])),
+            ("empty-map", Cv::Map(vec![])),
+            ("null", Cv::Null),
+            ("text", text("x")),
+            ("bstr", Cv::Bytes(vec![0x30, 0x00])),
+            ("tokens-empty", tok(Cv::Array(vec![]))),
+            ("tokens-int", tok(int(5))),
+            ("tokens-map", tok(Cv::Map(vec![]))),
+            ("tokens-of-empty-map", tok(Cv::Array(vec![Cv::Map(vec![])]))),
+            ("tokens-of-int", tok(Cv::Array(vec![int(1)]))),
+            ("token-val-empty", tok(Cv::Array(vec![Cv::Map(vec![(text("val"), Cv::Bytes(vec![]))])]))),
+            ("token-val-int", tok(Cv::Array(vec![Cv::Map(vec![(text("val"), int(1))])]))),
+            ("token-val-noise", tok(Cv::Array(vec![Cv::Map(vec![(text("val"), Cv::Bytes(noise.clone()))])]))),
+            ("token-val-seq", tok(Cv::Array(vec![Cv::Map(vec![(text("val"), Cv::Bytes(vec![0x30, 0x03, 0x02, 0x01, 0x00]))])]))),
+            ("tokens-x2000", tok(Cv::Array(vec![Cv::Map(vec![(text("val"), Cv::Bytes(vec![0x30, 0x00]))]); 2000]))),
+            ("ocsp-empty", ocsp(Cv::Array(vec![]))),
+            ("ocsp-int", ocsp(int(5))),
+            ("ocsp-of-empty-bstr", ocsp(Cv::Array(vec![Cv::Bytes(vec![])]))),
+            ("ocsp-of-int", ocsp(Cv::Array(vec![int(1)]))),
+            ("ocsp-noise", ocsp(Cv::Array(vec![Cv::Bytes(noise.clone())]))),
+            ("ocsp-seq", ocsp(Cv::Array(vec![Cv::Bytes(vec![0x30, 0x03, 0x0a, 0x01, 0x00])]))),
+            ("deep-nest", nest(int(1), 250)),
+        ];
+        for key in ["sigTst", "sigTst2", "rVals", "pad", "pad2"] {
+            for (name, v) in &shapes {
+                let mut p = fresh();
+                set(&mut p.unprot, 0, key, Some(v.clone()));
+                out.push((format!("{key}={name}"), build(&p)));
+            }
+            let mut p = fresh();
+            set(&mut p.unprot, 0, key, None);
+            out.push((format!("{key}-removed"), build(&p)));
+        }
+        for (name, v) in [("huge", Cv::Bytes(vec![0u8; 3_000_000])), ("nonzero", Cv::Bytes(vec![1u8; 40])), ("one", Cv::Bytes(vec![0]))] {
+            let mut p = fresh();
+            set(&mut p.unprot, 0, "pad", Some(v));
+            out.push((format!("pad={name}"), build(&p)));
+        }
+        // unknown / critical header parameters
+        for (name, k, v) in [("crit", int(2), Cv::Array(vec![int(99)])), ("crit-empty", int(2), Cv::Array(vec![])), ("crit-int", int(2), int(1)), ("content-type", int(3), Cv::Array(vec![])), ("kid", int(4), int(1)), ("iv", int(5), Cv::Bytes(vec![])), ("counter-signature", int(7), Cv::Array(vec![]))] {
+            let mut p = fresh();
+            p.prot.push((k.clone(), v.clone()));
+            out.push((format!("protected+{name}"), build(&p)));
+            let mut p = fresh();
+            p.unprot.push((k, v));
+            out.push((format!("unprotected+{name}"), build(&p)));
+        }
+        // payload / signature / arity / tags / top level
+        for (name, v) in [("empty-bstr", Cv::Bytes(vec![])), ("bstr", Cv::Bytes(b"payload".to_vec())), ("int", int(1)), ("array", Cv::Array(vec![])), ("big", Cv::Bytes(vec![7u8; 200_000]))] {
+            let mut p = fresh();
+            p.payload = v;
+            out.push((format!("payload={name}"), build(&p)));
+        }
+        for (name, v) in [("empty", Cv::Bytes(vec![])), ("null", Cv::Null), ("int", int(1)), ("one-byte", Cv::Bytes(vec![0])), ("text", text("sig")), ("10000", Cv::Bytes(vec![0x5a; 10_000])), ("array", Cv::Array(vec![]))] {
+            let mut p = fresh();
+            p.sig = v;
+            out.push((format!("signature={name}"), build(&p)));
+        }
+        if let Cv::Bytes(sig) = &base.sig {
+            for k in [1usize, 2, 31, 32, 33, 63, 65, 66, 96, 131, 132, 133] {
+                let mut p = fresh();
+                p.sig = Cv::Bytes(sig.iter().copied().cycle().take(k).collect());
+                out.push((format!("signature-len={k}"), build(&p)));
+            }
+        }
+        let arr = |p: &Parts| match build(p) {
+            Cv::Tag(_, inner) => *inner,
+            other => other,
+        };
+        let a4 = arr(&fresh());
+        if let Cv::Array(items) = &a4 {
+            for (name, v) in [
+                ("arity-3", Cv::Array(items[..3].to_vec())),
+                ("arity-5", Cv::Array(items.iter().cloned().chain([Cv::Null]).collect())),
+                ("arity-0", Cv::Array(vec![])),
+                ("arity-1", Cv::Array(items[..1].to_vec())),
+                ("top-map", Cv::Map(vec![])),
+                ("top-int", int(18)),
+                ("top-bstr", Cv::Bytes(enc(&a4))),
+                ("top-null", Cv::Null),
+            ] {
+                out.push((name.to_string(), Cv::Tag(18, Box::new(v.clone()))));
+                out.push((format!("{name}-untagged"), v));
+            }
+        }
+        for (name, v) in [
+            ("untagged", a4.clone()),
+            ("tag-98", Cv::Tag(98, Box::new(a4.clone()))),
+            ("tag-17", Cv::Tag(17, Box::new(a4.clone()))),
+            ("tag-18-18", Cv::Tag(18, Box::new(Cv::Tag(18, Box::new(a4.clone()))))),
+            ("tag-24-bstr", Cv::Tag(24, Box::new(Cv::Bytes(enc(&a4))))),
+            ("tag-55799-18", Cv::Tag(55799, Box::new(Cv::Tag(18, Box::new(a4.clone()))))),
+            ("tag-x300", (0..300).fold(a4.clone(), |acc, _| Cv::Tag(18, Box::new(acc)))),
+        ] {
+            out.push((name.to_string(), v));
+        }
+        // DER mutants of the certificates and of the time-stamp / OCSP blobs
+        let blobs = der_blobs(&base);
+        for _ in 0..extra {
+            let pick_blob = !blobs.is_empty() && rng.chance(1, 3);
+            if pick_blob {
+                let (hk, ik, i, b) = rng.pick(&blobs).clone();
+                if let Some((m, what)) = der_mutant(&b, rng) {
+                    let mut p = fresh();
+                    put_der_blob(&mut p, &hk, &ik, i, m);
+                    out.push((format!("{hk}[{i}]:{what}"), build(&p)));
+                }
+            } else if !certs.is_empty() {
+                let ci = rng.below(certs.len() as u64) as usize;
+                if let Some((m, what)) = der_mutant(&certs[ci], rng) {
+                    let mut cs = certs.clone();
+                    cs[ci] = m;
+                    let mut p = fresh();
+                    let v = if cs.len() == 1 && rng.chance(1, 2) { Cv::Bytes(cs[0].clone()) } else { bytes_list(&cs) };
+                    if in_prot {
+                        set(&mut p.prot, 33, "x5chain", Some(v));
+                    } else {
+                        set(&mut p.unprot, 33, "x5chain", Some(v));
+                    }
+                    out.push((format!("cert[{ci}]:{what}"), build(&p)));
+                }
+            }
+        }
+        out
+    }
+
+    /// Encode `v` in exactly `target` bytes by growing / shrinking the unprotected `pad` entry
+    /// (what the SDK itself does to fit a signature into its reserved box).
+    pub fn fit(v: &Cv, target: usize) -> Option<Vec<u8>> {
+        let (tag, arr) = match v {
+            Cv::Tag(t, inner) => (Some(*t), (**inner).clone()),
+            other => (None, other.clone()),
+        };
+        let Cv::Array(mut items) = arr else { return None };
+        if items.len() < 2 {
+            return None;
+        }
+        let Cv::Map(mut un) = items[1].clone() else { return None };
+        let wrap = |items: &Vec<Cv>| match tag {
+            Some(t) => Cv::Tag(t, Box::new(Cv::Array(items.clone()))),
+            None => Cv::Array(items.clone()),
+        };
+        for _ in 0..6 {
+            items[1] = Cv::Map(un.clone());
+            let cur = enc(&wrap(&items)).len();
+            if cur == target {
+                return Some(enc(&wrap(&items)));
+            }
+            let pos = un.iter().position(|(k, _)| matches!(k, Cv::Text(s) if s == "pad"));
+            match pos {
+                Some(i) => {
+                    let Cv::Bytes(p) = &un[i].1 else { return None };
+                    let want = (p.len() as i64) + target as i64 - cur as i64;
+                    if want < 0 {
+                        return None;
+                    }
+                    un[i].1 = Cv::Bytes(vec![0u8; want as usize]);
+                }
+                None => {
+                    if target < cur + 6 {
+                        return None;
+                    }
+                    un.push((Cv::Text("pad".into()), Cv::Bytes(vec![0u8; target - cur - 5])));
+                }
+            }
+        }
+        None
+    }
+}
+
+/// (manifest index, box index inside the manifest, COSE bytes) of every signature box of a store
+fn signature_boxes(store: &[u8]) -> Vec<(usize, usize, Vec<u8>)> {
+    let mut out = vec![];
+    if let Some((_, manifests)) = jb::split(store) {
+        for (mi, m) in manifests.iter().enumerate() {
+            if let Some((_, kids)) = jb::split(m) {
+                for (ki, k) in kids.iter().enumerate() {
+                    if let Some((d, inner)) = jb::split(k) {
+                        if &jb::kind(&d) == b"c2cs" && inner.len() == 1 && inner[0].len() > 8 && &inner[0][4..8] == b"cbor" {
+                            out.push((mi, ki, inner[0][8..].to_vec()));
+                        }
+                    }
+                }
+            }
+        }
+    }
+    out
+}
+
+/// the store with one signature replaced (all enclosing box sizes rebuilt)
+fn with_signature(store: &[u8], mi: usize, ki: usize, cose: &[u8]) -> Option<Vec<u8>> {
+    let (top, mut manifests) = jb::split(store)?;
+    let (mj, mut kids) = jb::split(manifests.get(mi)?)?;
+    let (sj, _) = jb::split(kids.get(ki)?)?;
+    kids[ki] = jb::join(&sj, &[jb::boxed(b"cbor", &[cose])]);
+    manifests[mi] = jb::join(&mj, &kids);
+    Some(jb::join(&top, &manifests))
+}
+
+fn find_sub(hay: &[u8], needle: &[u8]) -> Option<usize> {
+    if needle.is_empty() || needle.len() > hay.len() {
+        return None;
+    }
+    hay.windows(needle.len()).position(|w| w == needle)
+}
+
+/// Structure-aware ID3v2 mutants (tag header, frame headers, GEOB frame fields).
+fn id3_mutants(d: &[u8]) -> Vec<(String, Vec<u8>)> {
+    let mut out = vec![];
+    if d.len() < 20 || &d[..3] != b"ID3" {
+        return out;
+    }
+    let syncsafe = |b: &[u8]| ((b[0] as usize & 0x7f) << 21) | ((b[1] as usize & 0x7f) << 14) | ((b[2] as usize & 0x7f) << 7) | (b[3] as usize & 0x7f);
+    let put_syncsafe = |v: usize| [((v >> 21) & 0x7f) as u8, ((v >> 14) & 0x7f) as u8, ((v >> 7) & 0x7f) as u8, (v & 0x7f) as u8];
+    let major = d[3];
+    let tag_size = syncsafe(&d[6..10]);
+    let mut with = |what: String, f: &dyn Fn(&mut Vec<u8>)| {
+        let mut m = d.to_vec();
+        f(&mut m);
+        out.push((what, m));
+    };
+    // tag header
+    for v in [0usize, 1, 9, 10, 11, tag_size.saturating_sub(1), tag_size + 1, tag_size / 2, d.len(), d.len() + 1, 0x0fff_ffff] {
+        with(format!("id3-tag-size={v}"), &|m| m[6..10].copy_from_slice(&put_syncsafe(v)));
+    }
+    for raw in [[0xffu8, 0xff, 0xff, 0xff], [0x80, 0, 0, 0], [0, 0, 0, 0x80], [0x7f, 0xff, 0x7f, 0xff]] {
+        with(format!("id3-tag-size-raw={:02x}{:02x}{:02x}{:02x}", raw[0], raw[1], raw[2], raw[3]), &|m| m[6..10].copy_from_slice(&raw));
+    }
+    for v in [0u8, 1, 2, 3, 4, 5, 0x7f, 0xff] {
+        with(format!("id3-major={v}"), &|m| m[3] = v);
+        with(format!("id3-revision={v}"), &|m| m[4] = v);
+    }
+    for bit in 0..8 {
+        with(format!("id3-flag-bit{bit}"), &|m| m[5] ^= 1 << bit);
+    }
+    with("id3-flags=ff".into(), &|m| m[5] = 0xff);
+    // extended header announced, with sizes that do not fit
+    for ext in [[0u8, 0, 0, 0], [0, 0, 0, 1], [0x7f, 0x7f, 0x7f, 0x7f], [0xff, 0xff, 0xff, 0xff], [0, 0, 0, 6]] {
+        with(format!("id3-ext-header={:02x}{:02x}{:02x}{:02x}", ext[0], ext[1], ext[2], ext[3]), &|m| {
+            m[5] |= 0x40;
+            m.splice(10..10, ext.iter().copied().chain([0u8, 0, 0, 0, 0, 0]));
+        });
+    }
+    // frames
+    let end = (10 + tag_size).min(d.len());
+    let mut i = 10;
+    let mut k = 0;
+    while i + 10 <= end && k < 10 {
+        let id = &d[i..i + 4];
+        if id.iter().all(|b| *b == 0) {
+            break;
+        }
+        let fsize = if major >= 4 { syncsafe(&d[i + 4..i + 8]) } else { u32::from_be_bytes([d[i + 4], d[i + 5], d[i + 6], d[i + 7]]) as usize };
+        let rest = end - (i + 10);
+        let name = String::from_utf8_lossy(id).to_string();
+        for v in [0usize, 1, 2, fsize.saturating_sub(1), fsize + 1, rest, rest + 1, rest.saturating_sub(1), 0x0fff_ffff] {
+            with(format!("id3-frame{k}({name})-size={v}"), &|m| {
+                let b = if major >= 4 { put_syncsafe(v) } else { (v as u32).to_be_bytes() };
+                m[i + 4..i + 8].copy_from_slice(&b);
+            });
+        }
+        with(format!("id3-frame{k}({name})-size-raw=ffffffff"), &|m| m[i + 4..i + 8].copy_from_slice(&[0xff; 4]));
+        for fl in [[0xffu8, 0xff], [0x00, 0x80], [0x00, 0x40], [0x00, 0x08], [0x00, 0x04], [0x00, 0x02], [0x00, 0x01], [0x00, 0x0f], [0x80, 0x00], [0x00, 0xc0]] {
+            with(format!("id3-frame{k}({name})-flags={:02x}{:02x}", fl[0], fl[1]), &|m| m[i + 8..i + 10].copy_from_slice(&fl));
+        }
+        for idv in [[0u8; 4], [0xff; 4], *b"geob", *b"GEO\0", *b"TIT2", *b"APIC", *b"PRIV", *b"XXXX"] {
+            with(format!("id3-frame{k}({name})-id={:02x}{:02x}{:02x}{:02x}", idv[0], idv[1], idv[2], idv[3]), &|m| m[i..i + 4].copy_from_slice(&idv));
+        }
+        if id == b"GEOB" && fsize > 8 && i + 10 + 8 <= d.len() {
+            for enc in 0u8..6 {
+                with(format!("id3-geob{k}-encoding={enc}"), &|m| m[i + 10] = enc);
+            }
+            with(format!("id3-geob{k}-no-terminators"), &|m| {
+                let to = (i + 10 + 200).min(m.len()).min(i + 10 + fsize);
+                for b in m[i + 11..to].iter_mut() {
+                    if *b == 0 {
+                        *b = b'A';
+                    }
+                }
+            });
+            with(format!("id3-geob{k}-utf16-odd"), &|m| {
+                m[i + 10] = 1;
+                m[i + 11] = 0xff;
+                m[i + 12] = 0xfe;
+            });
+            with(format!("id3-geob{k}-duplicated"), &|m| {
+                let to = (i + 10 + fsize).min(m.len());
+                let copy = m[i..to].to_vec();
+                m.splice(to..to, copy);
+            });
+            with(format!("id3-geob{k}-truncated-after-header"), &|m| m.truncate(i + 11));
+        }
+        if fsize == 0 || i + 10 + fsize > end {
+            break;
+        }
+        i += 10 + fsize;
+        k += 1;
+    }
+    out
+}
+
+fn limit_cases(run: &mut Run, rng: &mut Rng) {
+    use c2pa::{status_tracker::StatusTracker, verif_hooks::{c10 as h10, c18 as h18, c20 as h20}};
+    let thorough = run.thorough();
+    let max_a = h10::MAX_ASSERTIONS;
+
+    // --- safe_vec::<T>: bytes reserved = n * size_of::<T>() or the refusal (no abort, no wrap)
+    fn svec<T: Clone>(n: u64, fill: Option<T>) -> Result<c2pa::Result<(usize, usize)>, String> {
+        guarded(std::panic::AssertUnwindSafe(|| c2pa::verif_hooks::c10::safe_vec_of::<T>(n, fill).map(|v| (v.capacity() * std::mem::size_of::<T>(), v.len()))))
+    }
+    let mut counts: Vec<u64> = vec![0, 1, 3, 4096, 100_000];
+    for el in [1u64, 4, 8] {
+        let lim = (i64::MAX as u64) / el;
+        counts.extend_from_slice(&[lim, lim + 1, lim + 2, (lim + 1).saturating_mul(2).saturating_sub(1), u64::MAX / el, (u64::MAX / el).saturating_add(1), u64::MAX]);
+    }
+    for _ in 0..if thorough { 300 } else { 40 } {
+        counts.push(if rng.chance(1, 2) { rng.below(1 << 18) } else { (1u64 << 61) + rng.below(u64::MAX - (1 << 61)) });
+    }
+    for n in counts {
+        for (el, fill) in [(1u64, false), (1, true), (4, true), (8, true), (8, false)] {
+            // in between "small" and "capacity overflow" the answer is the allocator's: not compared
+            let bytes = n as u128 * el as u128;
+            if bytes > (16 << 20) && bytes <= i64::MAX as u128 {
+                continue;
+            }
+            let res = match (el, fill) {
+                (1, false) => svec::<u8>(n, None),
+                (1, true) => svec::<u8>(n, Some(7)),
+                (4, _) => svec::<u32>(n, Some(7)),
+                (8, true) => svec::<u64>(n, Some(7)),
+                _ => svec::<u64>(n, None),
+            };
+            let imp = match &res {
+                Ok(Ok((b, l))) => format!("ok {b} {l}"),
+                Ok(Err(e)) => format!("err:{}", err_class(e)),
+                Err(_) => "panic".into(),
+            };
+            let idx = run.case(format!("C10 svec elem={el} n={n} fill={}", fill as u8), imp);
+            run.count("guard_safe_vec_t");
+            match res {
+                Err(p) => run.fail(idx, "panic:safe_vec", format!("safe_vec::<{el}-byte>({n}) panicked: {p}")),
+                Ok(Ok((b, l))) => {
+                    if b as u128 != bytes || (fill && l as u64 != n) {
+                        run.fail(idx, "safe-vec-wrong-size", format!("safe_vec::<{el}-byte>({n}, fill {fill}) reserved {b} bytes, length {l}"));
+                    }
+                    run.nontrivial(format!("svec {el} {n} {fill}"));
+                }
+                Ok(Err(_)) => {}
+            }
+        }
+    }
+
+    // --- a real manifest store, edited at the byte level
+    let store = match guarded(fresh_store) {
+        Ok(Ok(s)) => s,
+        other => {
+            run.notes.push(format!("fresh manifest store not produced: {:?}", other.map(|r| r.map(|v| v.len()).map_err(|e| err_class(&e)))));
+            run.obligations.insert("limit_cases_ran".into(), false);
+            return;
+        }
+    };
+    let Some((top_jumd, manifests)) = jb::split(&store) else {
+        run.obligations.insert("limit_cases_ran".into(), false);
+        return;
+    };
+    let Some(base) = manifests.last().cloned() else {
+        run.obligations.insert("limit_cases_ran".into(), false);
+        return;
+    };
+    run.obligations.insert("limit_cases_ran".into(), true);
+
+    // --- the reader's assertion loop: n assertion boxes in a real manifest
+    // (an assertion store without any box is a JUMBF parse error before the loop: not asked)
+    let mut ns = vec![1usize, 2, 9, 500, max_a - 1, max_a, max_a + 1];
+    if thorough {
+        ns.extend_from_slice(&[max_a + 2, max_a + 5000, 2 * max_a, 60_000]);
+    }
+    for n in ns {
+        let Some(m) = with_assertion_count(&base, n) else { continue };
+        let bytes = jb::join(&top_jumd, &[m]);
+        let base_live = LIVE.load(Ordering::Relaxed);
+        PEAK.store(base_live, Ordering::Relaxed);
+        let t0 = Instant::now();
+        let res = guarded(std::panic::AssertUnwindSafe(|| -> c2pa::Result<usize> {
+            let ctx = Context::new().with_settings(offline())?;
+            let st = h18::from_jumbf_with_context(&bytes, &mut StatusTracker::default(), &ctx)?;
+            Ok(st.provenance_claim().map(|c| c.claim_assertion_store().len()).unwrap_or(usize::MAX))
+        }));
+        let peak = PEAK.load(Ordering::Relaxed).saturating_sub(base_live);
+        let imp = match &res {
+            Ok(Ok(k)) => format!("ok {k}"),
+            Ok(Err(e)) => format!("err:{}", err_class(e)),
+            Err(_) => "panic".into(),
+        };
+        let idx = run.case(format!("C10 asserts n={n}"), imp);
+        run.count("limit_asserts");
+        match res {
+            Err(p) => run.fail(idx, "panic:from_jumbf", format!("store with {n} assertion boxes: {p}")),
+            Ok(Ok(k)) if k > max_a || n > max_a => run.fail(idx, "assertion-limit-exceeded:reader", format!("a manifest with {n} assertion boxes was loaded with {k} assertions (limit {max_a})")),
+            Ok(_) => run.nontrivial(format!("asserts {n}")),
+        }
+        if peak > 40 * bytes.len() + (8 << 20) {
+            run.fail(idx, "alloc-excess:from_jumbf", format!("store of {} bytes with {n} assertion boxes: peak heap {peak} bytes", bytes.len()));
+        }
+        run.notes.push(format!("asserts n={n}: {} bytes, peak {peak}, {} ms", bytes.len(), t0.elapsed().as_millis()));
+    }
+
+    // --- the store loop: one limit-sized reservation per compressed manifest, refusal above the limit
+    let mb = 3usize;
+    let max = mb << 20;
+    let s0 = base.len();
+    let mut plans: Vec<Vec<(bool, usize)>> = vec![
+        vec![(false, s0)],
+        vec![(true, s0)],
+        vec![(true, max - 1)],
+        vec![(true, max)],
+        vec![(true, max + 1)],
+        vec![(true, max), (false, s0), (true, max)],
+        vec![(true, s0), (true, max + 1), (true, s0)],
+        vec![(true, max), (true, max), (true, max), (true, max)],
+        vec![(false, s0), (false, s0 + 64), (true, 2 * max)],
+    ];
+    for _ in 0..if thorough { 40 } else { 6 } {
+        let k = 1 + rng.below(5) as usize;
+        plans.push(
+            (0..k)
+                .map(|_| match rng.below(7) {
+                    0 => (false, s0),
+                    1 => (false, s0 + 8 + rng.below(5000) as usize),
+                    2 => (true, s0),
+                    3 => (true, max - rng.below(3) as usize),
+                    4 if rng.chance(1, 3) => (true, max + 1 + rng.below(3) as usize),
+                    5 => (true, s0 + 8 + rng.below((max - s0 - 8) as u64) as usize),
+                    _ => (true, max),
+                })
+                .collect(),
+        );
+    }
+    for plan in plans {
+        let mut boxes = vec![];
+        let mut ok = true;
+        for (i, (brob, size)) in plan.iter().enumerate() {
+            let m = relabelled(&base, i).and_then(|m| padded_to(&m, *size));
+            let m = match (m, brob) {
+                (Some(m), true) => compressed(&m),
+                (m, _) => m,
+            };
+            match m {
+                Some(m) => boxes.push(m),
+                None => ok = false,
+            }
+        }
+        if !ok {
+            run.count("limit_stores_skipped");
+            continue;
+        }
+        let bytes = jb::join(&top_jumd, &boxes);
+        let spec = plan.iter().map(|(b, s)| format!("{}:{s}", if *b { "b" } else { "p" })).collect::<Vec<_>>().join(",");
+        let base_live = LIVE.load(Ordering::Relaxed);
+        PEAK.store(base_live, Ordering::Relaxed);
+        WATCHED.store(0, Ordering::Relaxed);
+        WATCH.store(max, Ordering::Relaxed);
+        let res = guarded(std::panic::AssertUnwindSafe(|| -> c2pa::Result<usize> {
+            let ctx = Context::new().with_settings(format!(r#"{{"core":{{"max_decompressed_manifest_size_in_mb":{mb}}},"verify":{{"remote_manifest_fetch":false,"ocsp_fetch":false}}}}"#).as_str())?;
+            let st = h18::from_jumbf_with_context(&bytes, &mut StatusTracker::default(), &ctx)?;
+            Ok(st.claims().len())
+        }));
+        WATCH.store(0, Ordering::Relaxed);
+        let reservations = WATCHED.load(Ordering::Relaxed);
+        let peak = PEAK.load(Ordering::Relaxed).saturating_sub(base_live);
+        let imp = match &res {
+            Ok(Ok(k)) => format!("ok {reservations} {k}"),
+            Ok(Err(_)) => format!("err {reservations}"),
+            Err(_) => "panic".into(),
+        };
+        let idx = run.case(format!("C10 stores max={max} s={spec}"), imp);
+        run.count("limit_stores");
+        let brobs = plan.iter().filter(|(b, _)| *b).count();
+        let over = plan.iter().any(|(b, s)| *b && *s > max);
+        let held: usize = plan.iter().map(|(_, s)| (*s).min(max)).sum();
+        match &res {
+            Err(p) => run.fail(idx, "panic:from_jumbf", format!("store {spec}: {p}")),
+            Ok(Ok(_)) if over => run.fail(idx, "bomb-accepted:store", format!("a compressed manifest that decompresses to more than the limit {max} was loaded ({spec})")),
+            Ok(Err(e)) if !over => run.fail(idx, "within-limit-refused:store", format!("every compressed manifest of {spec} decompresses to at most the limit {max}, yet the load failed: {}", err_class(e))),
+            Ok(_) => run.nontrivial(format!("stores {spec}")),
+        }
+        if reservations > brobs {
+            run.fail(idx, "reservation-per-manifest-exceeded", format!("{reservations} reservations of {max} bytes for {brobs} compressed manifests ({spec})"));
+        }
+        // heap oracle: the parsed manifests (a few copies of what they hold) + one sink
+        if peak > 6 * held + 3 * bytes.len() + max + (8 << 20) {
+            run.fail(idx, "alloc-excess:from_jumbf", format!("store {spec} ({} bytes): peak heap {peak} bytes", bytes.len()));
+        }
+        run.notes.push(format!("stores {spec}: {} bytes in, {reservations} reservations, peak {peak}", bytes.len()));
+    }
+
+    // --- Builder::with_definition keeps whatever the definition holds (no limit on this path)
+    let mut ns = vec![1usize, 50, max_a, max_a + 1];
+    if thorough {
+        ns.push(max_a + 777);
+    }
+    let def_with = |n: usize| -> String {
+        let assertions: Vec<serde_json::Value> = (0..n).map(|i| serde_json::json!({"label": format!("org.verif.a{i}"), "data": {"i": i}})).collect();
+        serde_json::json!({"title": "c10", "format": "image/png", "claim_generator_info": [{"name": "verif-harness", "version": "0.1"}], "assertions": assertions}).to_string()
+    };
+    for n in ns {
+        let def = def_with(n);
+        let res = guarded(std::panic::AssertUnwindSafe(|| -> c2pa::Result<usize> { Ok(Builder::from_context(Context::new()).with_definition(def.as_str())?.definition.assertions.len()) }));
+        let imp = match &res {
+            Ok(Ok(k)) => k.to_string(),
+            Ok(Err(e)) => format!("err:{}", err_class(e)),
+            Err(_) => "panic".into(),
+        };
+        let idx = run.case(format!("C10 bdef n={n}"), imp);
+        run.count("limit_bdef");
+        match res {
+            Err(p) => run.fail(idx, "panic:with_definition", format!("definition with {n} assertions: {p}")),
+            Ok(_) => run.nontrivial(format!("bdef {n}")),
+        }
+    }
+
+    // --- Claim::add_assertion: the limit that bounds what a signature covers. A claim is brought
+    // to `count` assertions with the loader's push (cheap; `add_assertion` is quadratic in the
+    // count), then `k` real adds follow.
+    let mut plans = vec![(0usize, 0usize), (0, 1), (0, 6), (0, 300), (max_a - 2, 1), (max_a - 2, 2), (max_a - 2, 3), (max_a - 1, 1), (max_a - 1, 2), (max_a, 1)];
+    if thorough {
+        plans.extend_from_slice(&[(max_a - 5, 9), (5000, 40), (max_a, 3), (max_a - 1, 5)]);
+    }
+    for (count, k) in plans {
+        let t0 = Instant::now();
+        let res = guarded(std::panic::AssertUnwindSafe(|| -> c2pa::Result<usize> {
+            let mut claim = h20::Claim::new_with_user_guid("verif", "urn:c2pa:6f1d2c3a-5b7e-4c1d-9a2b-3c4d5e6f7a8b", 2)?;
+            if count > 0 {
+                h20::claim_add_user_assertion(&mut claim, "org.verif.base", "{\"i\":0}")?;
+                let proto = claim.claim_assertion_store()[0].clone();
+                for _ in 1..count {
+                    h10::claim_put_assertion_store(&mut claim, proto.clone());
+                }
+            }
+            for i in 0..k {
+                h20::claim_add_user_assertion(&mut claim, &format!("org.verif.c{i}"), "{\"i\":1}")?;
+            }
+            Ok(claim.claim_assertion_store().len())
+        }));
+        let imp = match &res {
+            Ok(Ok(c)) => format!("ok {c}"),
+            Ok(Err(e)) => format!("err:{}", err_class(e)),
+            Err(_) => "panic".into(),
+        };
+        let idx = run.case(format!("C10 cadd count={count} k={k}"), imp);
+        run.count("limit_cadd");
+        match res {
+            Err(p) => run.fail(idx, "panic:claim_add_assertion", format!("{count} + {k} adds: {p}")),
+            Ok(Ok(c)) if c > max_a => run.fail(idx, "assertion-limit-exceeded:claim", format!("a claim holds {c} assertions (limit {max_a})")),
+            Ok(_) => run.nontrivial(format!("cadd {count} {k}")),
+        }
+        if count > 1000 {
+            run.notes.push(format!("cadd count={count} k={k}: {} ms", t0.elapsed().as_millis()));
+        }
     }
 }
 
@@ -318,6 +1681,7 @@ fn seeds(run: &mut Run) -> Vec<Seed> {
         ("CACA.jpg", "image/jpeg"),
         ("XCA.jpg", "image/jpeg"),
         ("E-sig-CA.jpg", "image/jpeg"),
+        ("ocsp.jpg", "image/jpeg"),
         ("cloud_manifest.c2pa", "application/c2pa"),
         ("boxhash.jpg", "image/jpeg"),
         ("legacy.mp4", "video/mp4"),
@@ -326,6 +1690,7 @@ fn seeds(run: &mut Run) -> Vec<Seed> {
         ("dash1.m4s", "video/mp4"),
         ("sample1.svg", "image/svg+xml"),
         ("sample1.mp3", "audio/mpeg"),
+        ("id3v23_compression_underflow.mp3", "audio/mpeg"),
         ("sample1.wav", "audio/wav"),
         ("sample1.gif", "image/gif"),
         ("sample1.webp", "image/webp"),
@@ -358,6 +1723,21 @@ fn seeds(run: &mut Run) -> Vec<Seed> {
         png.extend(chunk(b"IDAT", &[0x78, 0x9c, 0x63, 0x00, 0x00, 0x00, 0x01, 0x00, 0x01]));
         png.extend(chunk(b"IEND", &[]));
         add("crafted:png-xmp".to_string(), "image/png", png, false);
+    }
+    // raw manifest stores (sidecar form) of fixtures with different signature shapes: ES256 chains,
+    // time-stamp tokens (sigTst / sigTst2), OCSP staples (rVals), legacy headers, nested ingredients
+    for name in ["CA.jpg", "C.jpg", "ocsp.jpg", "CACA.jpg", "adobe-20220124-E-clm-CAICAI.jpg", "ocsp_with_assertion.jpg"] {
+        if let Ok(d) = std::fs::read(fixtures().join(name)) {
+            if let Ok(Ok(st)) = guarded(|| c2pa::jumbf_io::load_jumbf_from_memory("image/jpeg", &d)) {
+                add(format!("store:{name}"), "application/c2pa", st, false);
+            }
+        }
+    }
+    if let Ok(Ok(st)) = guarded(fresh_store) {
+        add("store:fresh-ed25519".to_string(), "application/c2pa", st, false);
+    }
+    if let Ok(Ok(st)) = guarded(|| fresh_store_with(true)) {
+        add("store:fresh-compressed".to_string(), "application/c2pa", st, false);
     }
     // legacy zip archives
     for name in ["old_format_archive.zip", "bad_path_archive.zip"] {
@@ -738,11 +2118,45 @@ fn one_entry<T>(f: impl FnOnce() -> c2pa::Result<T>) -> (String, String) {
     }
 }
 
+/// A remote server under the attacker's control (the OCSP responder named by the signing
+/// certificate of an untrusted asset): answers 200 with the given Content-Length header and a
+/// five-byte body.
+struct LyingServer {
+    content_length: String,
+}
+static RESOLVER_CALLS: AtomicUsize = AtomicUsize::new(0);
+
+impl c2pa::http::SyncHttpResolver for LyingServer {
+    fn http_resolve(&self, _request: c2pa::http::http::Request<Vec<u8>>) -> Result<c2pa::http::http::Response<Box<dyn std::io::Read>>, c2pa::http::HttpResolverError> {
+        RESOLVER_CALLS.fetch_add(1, Ordering::Relaxed);
+        c2pa::http::http::Response::builder()
+            .status(200)
+            .header("content-length", self.content_length.as_str())
+            .body(Box::new(Cursor::new(vec![0x30u8, 0x03, 0x0a, 0x01, 0x06])) as Box<dyn std::io::Read>)
+            .map_err(c2pa::http::HttpResolverError::Http)
+    }
+}
+
+const REMOTE_HINTS: [&str; 6] = ["remote-ocsp/5", "remote-ocsp/100000", "remote-ocsp/4000000000", "remote-ocsp/1099511627776", "remote-ocsp/9223372036854775808", "remote-ocsp/18446744073709551615"];
+
 fn exec_case(c: &Case) -> Res {
     let base = LIVE.load(Ordering::Relaxed);
     PEAK.store(base, Ordering::Relaxed);
     let t0 = Instant::now();
     let mut detail = String::new();
+    if let Some(cl) = c.hint.strip_prefix("remote-ocsp/") {
+        // validation with `verify.ocsp_fetch` on and the lying server as the HTTP transport
+        RESOLVER_CALLS.store(0, Ordering::Relaxed);
+        let (read, d1) = one_entry(|| {
+            let ctx = Context::new()
+                .with_settings(r#"{"verify":{"remote_manifest_fetch":false,"ocsp_fetch":true}}"#)?
+                .with_resolver(LyingServer { content_length: cl.to_string() });
+            Reader::from_context(ctx).with_stream("image/jpeg", Cursor::new(c.data.clone()))
+        });
+        let peak = PEAK.load(Ordering::Relaxed).saturating_sub(base);
+        let calls = RESOLVER_CALLS.load(Ordering::Relaxed);
+        return Res { read, ingredient: format!("calls{calls}"), archive: "-".into(), peak, ms: t0.elapsed().as_millis() as u64, detail: d1 };
+    }
     let (read, d1) = one_entry(|| Reader::from_context(Context::new().with_settings(offline())?).with_stream(c.hint, Cursor::new(c.data.clone())));
     detail.push_str(&d1);
     let (ingredient, d2) = one_entry(|| {
@@ -761,6 +2175,52 @@ fn exec_case(c: &Case) -> Res {
     Res { read, ingredient, archive, peak, ms: t0.elapsed().as_millis() as u64, detail }
 }
 
+/// What one case may hold at its peak: a small multiple of the input (the entry points copy the
+/// input and keep parsed forms of it: measured at most ~8x), a constant for the SDK's fixed
+/// tables (trust lists, settings: measured ~2 MiB), and the configured decompression limit
+/// (32 MiB, reserved up front) once per `brob` box the input contains.
+fn alloc_allowance(data: &[u8]) -> usize {
+    // the limit itself (the sink, reserved up front) + the parsed copy of what was decompressed
+    let one_limit = if brob_count(data) > 0 { 65 << 20 } else { 0 };
+    24 * data.len() + (8 << 20) + one_limit
+}
+
+fn brob_count(data: &[u8]) -> usize {
+    data.windows(4).filter(|w| w == b"brob").count()
+}
+
+/// An ID3v2 tag at the start of the input has a frame header that declares more data than the
+/// whole input holds.
+fn id3_oversize_frame(d: &[u8]) -> bool {
+    if d.len() < 20 || &d[..3] != b"ID3" || d[3] < 3 {
+        return false;
+    }
+    let syncsafe = |b: &[u8]| ((b[0] as usize & 0x7f) << 21) | ((b[1] as usize & 0x7f) << 14) | ((b[2] as usize & 0x7f) << 7) | (b[3] as usize & 0x7f);
+    let end = (10 + syncsafe(&d[6..10])).min(d.len());
+    let mut i = 10;
+    while i + 10 <= end && d[i] != 0 {
+        let plain = u32::from_be_bytes([d[i + 4], d[i + 5], d[i + 6], d[i + 7]]) as usize;
+        let size = if d[3] >= 4 { syncsafe(&d[i + 4..i + 8]) } else { plain };
+        if size > d.len() || (d[3] >= 4 && plain > d.len() && d[i + 4..i + 8].iter().any(|b| b & 0x80 != 0)) {
+            return true;
+        }
+        i += 10 + size;
+    }
+    false
+}
+
+/// The kind of input a resource failure is attributed to (known findings are keyed by it):
+/// the two input kinds with a known cause, else the format hint.
+fn input_kind(c: &Case) -> String {
+    if id3_oversize_frame(&c.data) {
+        "id3-oversize-frame".into()
+    } else if brob_count(&c.data) >= 2 {
+        "multi-brob".into()
+    } else {
+        c.hint.to_string()
+    }
+}
+
 enum Outcome {
     Done(Res),
     Hang,
@@ -770,7 +2230,7 @@ enum Outcome {
 /// wall-clock backstop per case (blocked / sleeping code); the working budget is CPU time
 const CASE_BUDGET: Duration = Duration::from_secs(90);
 /// CPU seconds one case may use (enforced with RLIMIT_CPU in the worker: robust against machine load)
-const CPU_BUDGET: u64 = 6;
+const CPU_BUDGET: u64 = 12;
 const AS_LIMIT: u64 = 3 << 30;
 
 /// Run `cases[from..]` in a forked child. Returns the outcomes obtained and the index of the
@@ -875,10 +2335,11 @@ fn run_batch(cases: &[Case], from: usize, errfile: &std::path::Path) -> (Vec<Out
         if next < cases.len() {
             let o = match verdict {
                 Some(Outcome::Hang) => Outcome::Hang,
-                _ if libc::WIFSIGNALED(status) && libc::WTERMSIG(status) == libc::SIGXCPU => Outcome::Hang,
+                _ if libc::WIFSIGNALED(status) && libc::WTERMSIG(status) == libc::SIGXCPU && !std::fs::read_to_string(errfile).unwrap_or_default().contains("memory allocation of") => Outcome::Hang,
                 _ => {
                     let err = std::fs::read_to_string(errfile).unwrap_or_default();
-                    let tail: String = err.chars().rev().take(300).collect::<String>().chars().rev().collect();
+                    let head: String = err.lines().next().unwrap_or("").chars().take(120).collect();
+                    let tail: String = format!("{head} … {}", err.chars().rev().take(240).collect::<String>().chars().rev().collect::<String>());
                     let how = if libc::WIFSIGNALED(status) { format!("signal {}", libc::WTERMSIG(status)) } else { format!("exit {}", libc::WEXITSTATUS(status)) };
                     Outcome::Crash(format!("{how}: {}", tail.replace('\n', " | ")))
                 }
@@ -968,9 +2429,16 @@ fn minimise(seed: &[u8], case: &Case, class_of: &dyn Fn(&Outcome, &Case) -> Opti
 }
 
 pub fn run(run: &mut Run, rng: &mut Rng) {
-    run.rule = "model-level: read_to_vec / BoundedVecWriter / builder assertion limit on random and boundary arguments (non-trivial = the guard let the request through). search: structure-aware mutants (bit flips, byte sets, length-field edits to 0/1/max/len±1/span, truncation at structural boundaries, box/chunk duplication and deletion, self-nesting to depth 2..400, CBOR head inflation, CBOR/XML deep-nesting runs, splices, swaps, multi-edits) of every seed (fixtures, freshly signed assets of every writable format, compressed manifests, archives, sidecar) under the right hint, a wrong hint and an unknown hint, through Reader::with_stream, Builder::add_ingredient_from_stream and (archive seeds and a sample of others) Builder::with_archive; each case in a forked worker with RLIMIT_AS 3 GiB, a budget of 6 s CPU time (RLIMIT_CPU; 90 s wall-clock backstop), catch_unwind, peak-heap accounting. non-trivial = a mutant that reached a parser (any outcome) — distinct by (seed, mutation, hint)".to_string();
+    run.rule = "model-level (each answered by the real code): read_to_vec / safe_vec::<T> / BoundedVecWriter on random and boundary arguments; Store::from_jumbf_with_context on real stores with manifests padded to decompress to limit-1 / limit / limit+1 bytes (reservations counted by the allocator) and on real manifests with MAX-1 / MAX / MAX+1 assertion boxes; Builder::with_definition / add_assertion and Claim::add_assertion around MAX_ASSERTIONS (non-trivial = the guard let the request through). search: every seed (fixtures, freshly signed assets of every writable format, compressed manifests, raw stores with ES256 / Ed25519 / time-stamped / OCSP-stapled / legacy signatures, archives) under every hint; structured probes: JUMBF nesting to 60000, consistent length sweeps of every box/chunk of small seeds, COSE_Sign1 header-shape mutants (x5chain / alg / protected container / sigTst / sigTst2 / rVals / pad / crit / payload / signature / arity / tags) and DER mutants of certificates, time-stamp tokens and OCSP responses — in raw stores with all box sizes rebuilt and inside the asset of every container at the same length (pad adjusted); brotli-stream truncations and bit flips, bombs at / over / far over the default limit, several limit-sized compressed manifests; ID3v2 tag / frame / GEOB mutants; zip archives whose directory names the same stored bytes many times; an OCSP responder that lies about Content-Length; then random structure-aware mutants (bit flips, length-field edits, truncation at structural boundaries, box duplication / deletion / self-nesting, CBOR head inflation and nesting runs, XML nesting, splices, swaps). Entry points: Reader::with_stream, Builder::add_ingredient_from_stream, Builder::with_archive; each case in a forked worker with RLIMIT_AS 3 GiB, 12 s CPU (RLIMIT_CPU; 90 s wall-clock backstop), catch_unwind, peak-heap accounting (<= 24 x input + 8 MiB, + 65 MiB with a brob box). non-trivial = a case that reached a parser (any outcome) — distinct by (seed, mutation, hint)".to_string();
     let thorough = run.thorough();
     guard_cases(run, rng);
+    limit_cases(run, rng);
+    // development aid: the obligation makes a check run with the search switched off fail
+    let skip = std::env::var("C10_SKIP_SEARCH").is_ok();
+    run.obligations.insert("search_ran".into(), !skip);
+    if skip {
+        return;
+    }
 
     let dir = scratch("c10");
     let errfile = dir.join("child-stderr.txt");
@@ -981,15 +2449,15 @@ pub fn run(run: &mut Run, rng: &mut Rng) {
 
     // budget: quick ~2.5k cases, thorough ~100k
     let total = if thorough { 150_000usize } else { 7_000 };
-    let deadline = Instant::now() + if thorough { Duration::from_secs(840) } else { Duration::from_secs(70) };
 
     let class_of = |o: &Outcome, c: &Case| -> Option<String> {
         let h = handler_of(c.hint);
+        let kind = input_kind(c);
         match o {
-            Outcome::Hang => Some(format!("hang:{h}")),
+            Outcome::Hang => Some(format!("hang:{kind}")),
             Outcome::Crash(why) => {
                 if why.contains("memory allocation of") || why.contains("out of memory") {
-                    Some(format!("oom:{h}"))
+                    Some(format!("oom:{kind}"))
                 } else if why.contains("overflowed its stack") {
                     Some(format!("stack-overflow:{h}"))
                 } else {
@@ -1003,10 +2471,8 @@ pub fn run(run: &mut Run, rng: &mut Rng) {
                     Some(format!("panic:ingredient:{h}"))
                 } else if r.archive == "panic" {
                     Some("panic:archive".to_string())
-                } else if r.peak > 64 * c.data.len() + (160 << 20) {
-                    // three entry points each may hold a copy of the input plus parsed forms; the
-                    // decompression limit is 32 MiB per manifest
-                    Some(format!("alloc-excess:{h}"))
+                } else if r.peak > alloc_allowance(&c.data) {
+                    Some(format!("alloc-excess:{kind}"))
                 } else {
                     None
                 }
@@ -1019,54 +2485,12 @@ pub fn run(run: &mut Run, rng: &mut Rng) {
     let mut max_ms = 0u64;
     let mut slowest = String::new();
     let mut saved: std::collections::BTreeSet<String> = Default::default();
-    // first: every seed unmodified under every hint (and as archive)
     let mut batch: Vec<Case> = vec![];
-    for (si, s) in seeds.iter().enumerate() {
-        let hs: Vec<&'static str> = if thorough { HINTS.to_vec() } else { vec![s.fmt, "xyz/unknown", "application/c2pa", "image/jpeg", "video/mp4", "image/tiff"] };
-        for h in hs {
-            batch.push(Case { seed: si, what: "seed".into(), hint: h, data: s.data.clone(), archive: s.archive || h == "application/c2pa" });
-        }
-    }
-    // structured probes: raw JUMBF stores nested to fixed depths (around and far beyond the limit)
-    for (si, s) in seeds.iter().enumerate() {
-        for depth in [1usize, 30, 31, 32, 33, 64, 1000, 20_000, 60_000] {
-            if let Some(w) = jumbf_wrap(&s.data, depth) {
-                for h in ["application/c2pa", "xyz/unknown"] {
-                    batch.push(Case { seed: si, what: format!("jumbf-wrap x{depth}"), hint: h, data: w.clone(), archive: true });
-                }
-            }
-        }
-    }
-    // structured probes: for small seeds every length field is swept through the small values
-    // (where "field shorter than its fixed part" bugs live) and the boundary values
-    for (si, s) in seeds.iter().enumerate() {
-        if s.data.len() > 8192 {
-            continue;
-        }
-        let nf = if thorough { 64 } else { 24 };
-        for (off, w, be, _, span, _, _) in fields[si].iter().take(nf) {
-            let max = if *w == 4 { u32::MAX as u64 } else { u16::MAX as u64 };
-            let mut vals: Vec<u64> = (0..if thorough { 80 } else { 36 }).collect();
-            vals.extend_from_slice(&[max, max - 1, max / 2, max / 2 + 1, *span as u64 & max, (*span as u64 + 1) & max, s.data.len() as u64 & max]);
-            let f = fields[si].iter().find(|f| f.0 == *off && f.4 == *span).copied();
-            for v in vals {
-                let mut d = s.data.clone();
-                put(&mut d, *off, *w, *be, v);
-                batch.push(Case { seed: si, what: format!("sweep-len@{off}={v}"), hint: s.fmt, data: d, archive: false });
-                if let Some(r) = f.as_ref().and_then(|f| resize(&s.data, f, v)) {
-                    batch.push(Case { seed: si, what: format!("sweep-resize@{off}={v}"), hint: s.fmt, data: r, archive: false });
-                }
-            }
-        }
-    }
-    // tiny inputs under every hint
-    for h in HINTS {
-        for d in [vec![], vec![0u8], vec![0xff, 0xd8], vec![0u8; 16], b"RIFF\xff\xff\xff\xffWEBP".to_vec(), b"\x00\x00\x00\x01ftyp".to_vec(), b"ID3\x04\x00\x00\x7f\x7f\x7f\x7f".to_vec(), b"II*\x00\xff\xff\xff\xff".to_vec(), b"GIF89a".to_vec(), b"\x89PNG\r\n\x1a\n\xff\xff\xff\xffIHDR".to_vec(), b"fLaC\x7f\xff\xff\xff".to_vec(), b"%PDF-1.7\n".to_vec(), b"<svg".to_vec(), b"PK\x03\x04".to_vec()] {
-            batch.push(Case { seed: usize::MAX, what: "tiny".into(), hint: h, data: d, archive: true });
-        }
-    }
-
-    let mut process = |run: &mut Run, batch: &[Case], done: &mut usize| {
+    let mut batch_bytes = 0usize;
+    let mut n_struct = 0usize;
+    let t_struct = Instant::now();
+    let mut peaks = std::env::var("C10_DUMP_PEAKS").ok().and_then(|p| std::fs::File::create(p).ok());
+    let mut process = |run: &mut Run, batch: &[Case], done: &mut usize, from_search: bool| {
         let outs = run_cases(batch, &errfile);
         for (c, o) in batch.iter().zip(outs.iter()) {
             *done += 1;
@@ -1078,6 +2502,10 @@ pub fn run(run: &mut Run, rng: &mut Rng) {
                 _ => "?".into(),
             };
             if let Outcome::Done(r) = o {
+                if let Some(f) = peaks.as_mut() {
+                    use std::io::Write;
+                    let _ = writeln!(f, "{}\t{}\t{}\t{}\t{}", c.data.len(), r.peak, c.hint, sname, c.what);
+                }
                 max_peak = max_peak.max(r.peak);
                 if r.ms > max_ms {
                     max_ms = r.ms;
@@ -1089,7 +2517,7 @@ pub fn run(run: &mut Run, rng: &mut Rng) {
                     run.count(&format!("archive_{}", r.archive));
                 }
             }
-            run.count(&format!("mut_{}", c.what.split(['@', ' ']).next().unwrap_or("")));
+            run.count(&format!("mut_{}", c.what.split(['@', ' ', ':', '[', '=', '(']).next().unwrap_or("").trim_end_matches(|ch: char| ch.is_ascii_digit())));
             let idx = run.case(
                 format!("C10 e2e id={} seed={} mut={} hint={} len={} outcome={}", *done, sname.replace(' ', "_"), c.what.replace(' ', "_"), c.hint, c.data.len(), outcome.replace(' ', "_")),
                 outcome.replace(' ', "_"),
@@ -1103,7 +2531,9 @@ pub fn run(run: &mut Run, rng: &mut Rng) {
                 };
                 // minimise once per class, save the input
                 let mut file = String::new();
-                if !saved.contains(&k) && saved.len() < 12 {
+                // (structured probes are minimal by construction and are regenerated on every run:
+                // only inputs found by the random search are minimised and kept in the corpus)
+                if from_search && !saved.contains(&k) && saved.len() < 12 {
                     saved.insert(k.clone());
                     let min = match seeds.get(c.seed) {
                         Some(s) => minimise(&s.data, c, &class_of, &k, &errfile),
@@ -1119,7 +2549,205 @@ pub fn run(run: &mut Run, rng: &mut Rng) {
             }
         }
     };
-    process(run, &batch, &mut done);
+    // The structured cases are run as they are generated: the forked workers inherit this
+    // process's address space, so it must stay small (a few hundred MB at most).
+    macro_rules! emit {
+        ($c:expr) => {{
+            let c: Case = $c;
+            batch_bytes += c.data.len() + 256;
+            n_struct += 1;
+            batch.push(c);
+            if batch_bytes > (160 << 20) || batch.len() >= 4096 {
+                process(run, &batch, &mut done, false);
+                batch.clear();
+                batch_bytes = 0;
+            }
+        }};
+    }
+    // first: every seed unmodified under every hint (and as archive)
+    for (si, s) in seeds.iter().enumerate() {
+        let hs: Vec<&'static str> = if thorough || s.data.len() <= 300_000 { HINTS.to_vec() } else { vec![s.fmt, "xyz/unknown", "application/c2pa", "image/jpeg", "video/mp4", "image/tiff"] };
+        for h in hs {
+            emit!(Case { seed: si, what: "seed".into(), hint: h, data: s.data.clone(), archive: s.archive || h == "application/c2pa" });
+        }
+    }
+    // structured probes: raw JUMBF stores nested to fixed depths (around and far beyond the limit)
+    for (si, s) in seeds.iter().enumerate() {
+        for depth in [1usize, 30, 31, 32, 33, 64, 1000, 20_000, 60_000] {
+            if let Some(w) = jumbf_wrap(&s.data, depth) {
+                for h in ["application/c2pa", "xyz/unknown"] {
+                    emit!(Case { seed: si, what: format!("jumbf-wrap x{depth}"), hint: h, data: w.clone(), archive: true });
+                }
+            }
+        }
+    }
+    // structured probes: for small seeds every length field is swept through the small values
+    // (where "field shorter than its fixed part" bugs live) and the boundary values
+    for (si, s) in seeds.iter().enumerate() {
+        if s.data.len() > 8192 {
+            continue;
+        }
+        let nf = if thorough { 64 } else { 16 };
+        for (off, w, be, _, span, _, _) in fields[si].iter().take(nf) {
+            let max = if *w == 4 { u32::MAX as u64 } else { u16::MAX as u64 };
+            let mut vals: Vec<u64> = (0..if thorough { 80 } else { 26 }).collect();
+            vals.extend_from_slice(&[max, max - 1, max / 2, max / 2 + 1, *span as u64 & max, (*span as u64 + 1) & max, s.data.len() as u64 & max]);
+            let f = fields[si].iter().find(|f| f.0 == *off && f.4 == *span).copied();
+            for v in vals {
+                let mut d = s.data.clone();
+                put(&mut d, *off, *w, *be, v);
+                emit!(Case { seed: si, what: format!("sweep-len@{off}={v}"), hint: s.fmt, data: d, archive: false });
+                if let Some(r) = f.as_ref().and_then(|f| resize(&s.data, f, v)) {
+                    emit!(Case { seed: si, what: format!("sweep-resize@{off}={v}"), hint: s.fmt, data: r, archive: false });
+                }
+            }
+        }
+    }
+    // structure-aware COSE_Sign1 / X.509 / time-stamp / OCSP mutants of the signature box
+    // (a) in a raw store, with every enclosing box size rebuilt
+    for (si, s) in seeds.iter().enumerate() {
+        if !(s.name.starts_with("store:") || s.name == "fixture:cloud_manifest.c2pa") {
+            continue;
+        }
+        let sigs = signature_boxes(&s.data);
+        let n = sigs.len();
+        for (k, (mi, ki, cose)) in sigs.into_iter().enumerate() {
+            let active = k + 1 == n;
+            if !active && !thorough {
+                continue;
+            }
+            let extra = if thorough { 300 } else { 25 };
+            for (what, v) in cosemut::mutants(&cose, rng, if active { extra } else { extra / 6 }) {
+                if let Some(d) = with_signature(&s.data, mi, ki, &cosemut::enc(&v)) {
+                    emit!(Case { seed: si, what: format!("cose[{k}]:{what}"), hint: "application/c2pa", data: d, archive: false });
+                }
+            }
+        }
+        run.count("cose_store_seeds");
+    }
+    // (b) inside the asset of every container format: same length (the `pad` header entry takes
+    // the difference), replaced in place where the signature bytes are contiguous in the file
+    for (si, s) in seeds.iter().enumerate() {
+        // (not PDF: lopdf starts a rayon pool in this process, whose threads do not exist in the
+        // forked workers — every later PDF case would block)
+        if s.archive || s.fmt == "application/c2pa" || s.fmt == "application/pdf" || !(s.name.starts_with("signed") || s.name.starts_with("compressed") || s.name.starts_with("fixture:")) {
+            continue;
+        }
+        let Ok(Ok(store)) = guarded(|| c2pa::jumbf_io::load_jumbf_from_memory(s.fmt, &s.data)) else { continue };
+        let Some((_, _, cose)) = signature_boxes(&store).pop() else { continue };
+        let Some(at) = find_sub(&s.data, &cose) else {
+            run.count("cose_in_asset_not_contiguous");
+            continue;
+        };
+        run.count("cose_in_asset_seeds");
+        let all = cosemut::mutants(&cose, rng, if thorough { 120 } else { 12 });
+        let step = if thorough { 1 } else { 5 };
+        for (j, (what, v)) in all.into_iter().enumerate() {
+            if what.starts_with("pad") || (j + si) % step != 0 {
+                continue;
+            }
+            match cosemut::fit(&v, cose.len()) {
+                Some(b) => {
+                    let mut d = s.data.clone();
+                    d[at..at + b.len()].copy_from_slice(&b);
+                    emit!(Case { seed: si, what: format!("cose-in-asset:{what}"), hint: s.fmt, data: d, archive: false });
+                }
+                None => run.count("cose_in_asset_no_fit"),
+            }
+        }
+    }
+    // a remote server that lies about Content-Length (OCSP responder of the signing certificate)
+    for (si, s) in seeds.iter().enumerate() {
+        if s.fmt == "image/jpeg" && s.name.starts_with("fixture:") {
+            for h in REMOTE_HINTS {
+                emit!(Case { seed: si, what: "remote-ocsp".into(), hint: h, data: s.data.clone(), archive: false });
+            }
+        }
+    }
+    // decompression through the public readers at the default limit (32 MiB): at / over the
+    // limit, bombs, several limit-sized manifests in one store
+    if let Some((si, s)) = seeds.iter().enumerate().find(|(_, s)| s.name == "store:fresh-ed25519") {
+        if let Some((top, manifests)) = jb::split(&s.data) {
+            if let Some(base) = manifests.last() {
+                let lim = 32usize << 20;
+                let mut sizes = vec![("brob-at-limit", lim), ("brob-over-limit", lim + 1), ("brob-bomb-x4", 4 * lim)];
+                if thorough {
+                    sizes.push(("brob-bomb-x12", 12 * lim));
+                }
+                for (what, size) in sizes {
+                    if let Some(m) = padded_to(base, size).and_then(|m| compressed(&m)) {
+                        emit!(Case { seed: si, what: what.into(), hint: "application/c2pa", data: jb::join(&top, &[m]), archive: false });
+                    }
+                }
+                for k in if thorough { vec![2usize, 4, 8] } else { vec![2] } {
+                    let ms: Vec<Vec<u8>> = (0..k).filter_map(|i| with_big_assertion(base, lim - base.len() - 4096).and_then(|m| relabelled(&m, i)).and_then(|m| compressed(&m))).collect();
+                    if ms.len() == k {
+                        emit!(Case { seed: si, what: format!("brob-limit-sized x{k}"), hint: "application/c2pa", data: jb::join(&top, &ms), archive: false });
+                    }
+                }
+            }
+        }
+    }
+    // brotli-stream mutants of a compressed manifest (raw store, box sizes rebuilt)
+    if let Some((si, s)) = seeds.iter().enumerate().find(|(_, s)| s.name == "store:fresh-compressed") {
+        if let Some(p) = brob_payload(&s.data) {
+            let mut streams: Vec<(String, Vec<u8>)> = vec![];
+            for n in (0..=p.len().min(48)).chain((0..24).map(|_| rng.below(p.len() as u64 + 1) as usize)) {
+                streams.push((format!("brotli-truncate={n}"), p[..n].to_vec()));
+            }
+            for bit in (0..(p.len().min(12) * 8)).chain((0..if thorough { 600 } else { 60 }).map(|_| rng.below(p.len() as u64 * 8) as usize)) {
+                let mut m = p.clone();
+                m[bit / 8] ^= 1 << (bit % 8);
+                streams.push((format!("brotli-bitflip={bit}"), m));
+            }
+            for b in 0u8..64 {
+                streams.push((format!("brotli-one-byte={b:02x}"), vec![b]));
+            }
+            let mut twice = p.clone();
+            twice.extend_from_slice(&p);
+            streams.push(("brotli-concatenated".into(), twice));
+            for extra in [1usize, 100, 70_000] {
+                let mut m = p.clone();
+                m.extend(rng.bytes(extra));
+                streams.push((format!("brotli-trailing-garbage={extra}"), m));
+            }
+            streams.push(("brotli-random-1k".into(), rng.bytes(1024)));
+            for (what, st) in streams {
+                if let Some(d) = with_brob_payload(&s.data, &st) {
+                    emit!(Case { seed: si, what, hint: "application/c2pa", data: d, archive: false });
+                }
+            }
+        }
+    }
+    // ID3v2 structure mutants
+    for (si, s) in seeds.iter().enumerate() {
+        if s.data.starts_with(b"ID3") {
+            let all = id3_mutants(&s.data);
+            let step = if thorough || s.data.len() < 60_000 { 1 } else { 2 };
+            for (j, (what, d)) in all.into_iter().enumerate() {
+                if j % step == 0 {
+                    emit!(Case { seed: si, what, hint: s.fmt, data: d, archive: false });
+                }
+            }
+        }
+    }
+    // a builder archive whose directory names the same stored bytes many times
+    {
+        let manifest_json = definition("c10 zip", "image/jpeg");
+        for (n, size) in if thorough { vec![(3usize, 1000usize), (400, 1 << 20), (4000, 1 << 20)] } else { vec![(3, 1000), (400, 1 << 20)] } {
+            emit!(Case { seed: usize::MAX, what: format!("zip-overlap {n}x{size}"), hint: "application/c2pa", data: zip_overlap(manifest_json.as_bytes(), n, size), archive: true });
+        }
+    }
+    // tiny inputs under every hint
+    for h in HINTS {
+        for d in [vec![], vec![0u8], vec![0xff, 0xd8], vec![0u8; 16], b"RIFF\xff\xff\xff\xffWEBP".to_vec(), b"\x00\x00\x00\x01ftyp".to_vec(), b"ID3\x04\x00\x00\x7f\x7f\x7f\x7f".to_vec(), b"II*\x00\xff\xff\xff\xff".to_vec(), b"GIF89a".to_vec(), b"\x89PNG\r\n\x1a\n\xff\xff\xff\xffIHDR".to_vec(), b"fLaC\x7f\xff\xff\xff".to_vec(), b"%PDF-1.7\n".to_vec(), b"<svg".to_vec(), b"PK\x03\x04".to_vec()] {
+            emit!(Case { seed: usize::MAX, what: "tiny".into(), hint: h, data: d, archive: true });
+        }
+    }
+
+    process(run, &batch, &mut done, false);
+    batch.clear();
+    run.notes.push(format!("structured part: {n_struct} cases in {} s", t_struct.elapsed().as_secs()));
 
     // replay the saved corpus (earlier findings stay in the run)
     if let Ok(rd) = std::fs::read_dir(&corpus) {
@@ -1133,10 +2761,11 @@ pub fn run(run: &mut Run, rng: &mut Rng) {
                 b.push(Case { seed: usize::MAX, what: format!("corpus:{name}"), hint, data: d, archive: true });
             }
         }
-        process(run, &b, &mut done);
+        process(run, &b, &mut done, false);
     }
 
-    // mutants
+    // mutants (own time budget, after the structured part)
+    let deadline = Instant::now() + if thorough { Duration::from_secs(420) } else { Duration::from_secs(35) };
     let before = done;
     while done - before < total && Instant::now() < deadline {
         let mut batch: Vec<Case> = Vec::with_capacity(96);
@@ -1160,7 +2789,7 @@ pub fn run(run: &mut Run, rng: &mut Rng) {
             let archive = s.archive || rng.chance(1, 12);
             batch.push(Case { seed: si, what, hint, data: m, archive });
         }
-        process(run, &batch, &mut done);
+        process(run, &batch, &mut done, true);
     }
     run.notes.push(format!("search: {done} cases; max peak heap of a completed case {max_peak} bytes; slowest completed case {max_ms} ms ({slowest})"));
     let _ = std::fs::remove_dir_all(&dir);
